@@ -1,3 +1,1880 @@
-import ElfioVerif.Model.Load
+/-
+C15 — lazy loading and address translation do not change what is observed.
+
+Section / segment level (all images, all stream states):
+ * `isolatedRead_state_independent`, `isolatedRead_flags_or` : what the F9 fix buys,
+ * `secGetData_lazy_eq_eager`, `segGetData_lazy_eq_eager` : a lazily loaded part, once requested,
+   shows exactly what the eagerly loaded part shows,
+ * `freeData_getData`, `interleaving_eq`, `seg_interleaving_eq` : any interleaving of requests,
+   releases and arbitrary disturbances of the stream's position / error state.
+Whole-load level: see the end of the file.
+-/
+import ElfioVerif.Lemmas.LoadSpec
+import ElfioVerif.Props.C02
+set_option linter.unusedSimpArgs false
+set_option linter.unusedVariables false
 namespace ElfioVerif.C15
+open Gen C02
+
+/-! ### the read primitive -/
+
+/-- the bytes delivered by an isolated read and its completeness flag do not depend on the
+    stream's position, error flags or last count -/
+theorem isolatedRead_state_independent (s : IStream) (pos gcount : Nat) (eof fail : Bool)
+    (off n : BitVec 64) :
+    (isolatedRead { s with pos := pos, eof := eof, fail := fail, gcount := gcount } off n).2 =
+      (isolatedRead s off n).2 :=
+  isolatedRead_indep { s with pos := pos, eof := eof, fail := fail, gcount := gcount } s rfl rfl off n
+
+/-- … they depend on the stream's bytes and kind only -/
+theorem isolatedRead_depends_on_data_only (s s' : IStream) (hd : s.data = s'.data)
+    (hk : s.kind = s'.kind) (off n : BitVec 64) : (isolatedRead s off n).2 = (isolatedRead s' off n).2 :=
+  isolatedRead_indep s s' hd hk off n
+
+/-- the error flags afterwards are the earlier flags OR the flags the same read raises on a
+    cleared stream: an earlier failure is neither forgotten nor does it influence the read -/
+theorem isolatedRead_flags_or (s : IStream) (off n : BitVec 64) :
+    (isolatedRead s off n).1.eof = ((isolatedRead s.clear off n).1.eof || s.eof) ∧
+    (isolatedRead s off n).1.fail = ((isolatedRead s.clear off n).1.fail || s.fail) ∧
+    (isolatedRead s off n).1.data = s.data ∧ (isolatedRead s off n).1.kind = s.kind :=
+  ⟨(isolatedRead_flags s off n).1, (isolatedRead_flags s off n).2, isolatedRead_data_ls s off n,
+   isolatedRead_kind_ls s off n⟩
+
+example : (isolatedRead { data := [1, 2, 3, 4], pos := 9, eof := true, fail := true } 1#64 2#64).2
+    = ([2, 3], true) := by decide
+
+/-! ### observations of a section -/
+
+/-- everything the public getters of a section return (data as the whole buffer) -/
+structure SecObs where
+  index : Nat
+  name : Bytes
+  nameOff : BitVec 32
+  stype : BitVec 32
+  flags : BitVec 64
+  addr : BitVec 64
+  offset : BitVec 64
+  size : BitVec 64
+  link : BitVec 32
+  info : BitVec 32
+  addrAlign : BitVec 64
+  entSize : BitVec 64
+  data : Option Bytes
+  dataSize : BitVec 64
+  streamSize : BitVec 64
+
+def secObs (b : SecBuf) : SecObs :=
+  { index := b.index, name := b.name, nameOff := b.nameOff, stype := b.stype, flags := b.flags,
+    addr := b.addr, offset := b.offset, size := b.size, link := b.link, info := b.info,
+    addrAlign := b.addrAlign, entSize := b.entSize, data := b.data, dataSize := b.dataSize,
+    streamSize := b.streamSize }
+
+theorem decodeShdr_lazy (c : Cls) (enc : Enc) (r : Bytes) (ss : BitVec 64) (te : Bool) (idx : Nat) :
+    decodeShdr c enc r (secInit c ss te true idx) =
+      { decodeShdr c enc r (secInit c ss te false idx) with isLazy := true } := by
+  cases c <;> rfl
+
+@[simp] theorem streamSizeOf_data (tr : List Trans) (st : IStream) : (streamSizeOf tr st).1.data = st.data := by
+  unfold streamSizeOf; split
+  · simp
+  · rfl
+@[simp] theorem streamSizeOf_kind (tr : List Trans) (st : IStream) : (streamSizeOf tr st).1.kind = st.kind := by
+  unfold streamSizeOf; split
+  · simp
+  · rfl
+@[simp] theorem hdrRead_data (tr : List Trans) (st : IStream) (o : Int) (n : Nat) :
+    (hdrRead_ls tr st o n).1.data = st.data := by simp [hdrRead_ls]
+@[simp] theorem hdrRead_kind (tr : List Trans) (st : IStream) (o : Int) (n : Nat) :
+    (hdrRead_ls tr st o n).1.kind = st.kind := by simp [hdrRead_ls]
+
+/-- `get_data()`'s effect on the observations, as a function of the observations -/
+def obsGet (x : SecObs) : SecOutcome → SecObs
+  | .refuse => x
+  | .readFail => { x with data := none, dataSize := 0 }
+  | .loaded d => { x with data := some (d ++ [0]), dataSize := x.size }
+  | .loadedEmpty => { x with data := some (alloc 1), dataSize := 0 }
+  | .keep _ => x
+
+theorem secObs_getApply (b : SecBuf) (o : SecOutcome) : secObs (secGetApply b o) = obsGet (secObs b) o := by
+  rcases o with _ | _ | d | _ | (_ | _) <;> simp [secGetApply, SecOutcome.apply, secObs, obsGet]
+
+@[simp] theorem secObs_addrSet (b : SecBuf) (x : Bool) : secObs { b with addrSet := x } = secObs b := rfl
+
+/-- **a lazily loaded section, once its data is requested — on a stream in any position and any
+    error state — shows what the eagerly loaded section shows** (same image, same translation) -/
+theorem secGetData_lazy_eq_eager (c : Cls) (enc : Enc) (tr : List Trans) (ls ls' : LoadSt)
+    (hdrOff : Int) (idx : Nat) (hd : ls'.st.data = ls.st.data) (hk : ls'.st.kind = ls.st.kind) :
+    secObs (secGetData c tr ls' (secLoad c enc tr ls hdrOff true idx).2).2 =
+      secObs (secLoad c enc tr ls hdrOff false idx).2 := by
+  rw [secLoad_eq_ls, secLoad_eq_ls]
+  simp only []
+  split
+  · -- short header read: both keep the zero-initialised header
+    rw [secGetData_snd]
+    simp only [secInit, Bool.not_false, Bool.and_self, if_true, Option.isNone_none, secObs_getApply]
+    have key : ∀ ss, secOutcome c tr ls'.st 0#32 0#64 0#64 ss true = .refuse ∨
+        secOutcome c tr ls'.st 0#32 0#64 0#64 ss true = .keep true :=
+      fun ss => secOutcome_nobits c tr ls'.st _ _ _ ss (by decide)
+    rcases key (hdrRead_ls tr ls.st hdrOff (shdrSize c)).2.2 with h | h <;> simp [h, obsGet, secObs]
+  · simp only [if_true, Bool.false_eq_true, if_false, secObs_addrSet]
+    rw [secGetData_snd, secGetData_snd]
+    simp only [decodeShdr_isLoaded_ls, decodeShdr_canLoad_ls, decodeShdr_data_ls, decodeShdr_streamSize_ls, secInit,
+      Bool.not_false, Bool.and_self, if_true, Option.isNone_none]
+    have e := decodeShdr_lazy c enc (hdrRead_ls tr ls.st hdrOff (shdrSize c)).2.1
+      (hdrRead_ls tr ls.st hdrOff (shdrSize c)).2.2 tr.isEmpty idx
+    simp only [secInit] at e
+    rw [e]
+    simp only []
+    rw [secOutcome_indep c tr ls'.st (hdrRead_ls tr ls.st hdrOff (shdrSize c)).1 (by simp [hd]) (by simp [hk])]
+    rw [secObs_getApply, secObs_getApply]
+    rfl
+
+/-! ### interleavings of requests and releases on one section -/
+
+/-- what can happen to one lazily loaded section while the stream stays open: its data is
+    requested, its data is released, or *anything else* moves the stream / changes its error state
+    (reads for other sections and segments, failed reads, …) -/
+inductive DataOp
+  | request
+  | release
+  | disturb (pos : Nat) (eof fail : Bool) (gcount : Nat)
+  deriving Repr
+
+def disturbSt (ls : LoadSt) (p : Nat) (e f : Bool) (g : Nat) : LoadSt :=
+  { ls with st := { ls.st with pos := p, eof := e, fail := f, gcount := g } }
+
+def runSecOps (c : Cls) (tr : List Trans) : LoadSt → SecBuf → List DataOp → LoadSt × SecBuf
+  | ls, b, [] => (ls, b)
+  | ls, b, .request :: r => runSecOps c tr (secGetData c tr ls b).1 (secGetData c tr ls b).2 r
+  | ls, b, .release :: r => runSecOps c tr ls b.freeData r
+  | ls, b, .disturb p e f g :: r => runSecOps c tr (disturbSt ls p e f g) b r
+
+/-- a lazily loaded section whose data has not been requested yet -/
+def Fresh (b : SecBuf) : Prop := b.isLazy = true ∧ b.isLoaded = false ∧ b.canLoad = true ∧ b.data = none
+
+/-- the states a lazily loaded section `b` moves through: resident/decided (`secGetApply b o`), or
+    non-resident with a possibly updated `data_size` -/
+def SecInv (b : SecBuf) (o : SecOutcome) (b' : SecBuf) : Prop :=
+  b' = secGetApply b o ∨
+  ∃ ds, b' = { b with dataSize := ds } ∧
+    (ds = b.dataSize ∨ ((o.apply b).2 = true ∧ ds = (secGetApply b o).dataSize))
+
+theorem getApply_noop (b : SecBuf) (o : SecOutcome) (hb : Fresh b) :
+    (!(secGetApply b o).isLoaded && (secGetApply b o).canLoad) = false := by
+  obtain ⟨_, h2, h3, _⟩ := hb
+  rcases o with _ | _ | d | _ | (_ | _) <;> simp [secGetApply, SecOutcome.apply, h2, h3]
+
+theorem getApply_ds (b : SecBuf) (o : SecOutcome) (ds : BitVec 64)
+    (h : ds = b.dataSize ∨ ((o.apply b).2 = true ∧ ds = (secGetApply b o).dataSize)) :
+    secGetApply { b with dataSize := ds } o = secGetApply b o := by
+  rcases h with h | ⟨h1, h2⟩
+  · subst h; rfl
+  · rcases o with _ | _ | d | _ | (_ | _) <;>
+      simp_all [secGetApply, SecOutcome.apply]
+
+theorem free_inv (b : SecBuf) (o : SecOutcome) (hb : Fresh b) (b' : SecBuf) (h : SecInv b o b') :
+    SecInv b o b'.freeData := by
+  obtain ⟨h1, h2, h3, h4⟩ := hb
+  rcases h with h | ⟨ds, h, hds⟩
+  · subst h
+    rcases o with _ | _ | d | _ | (_ | _)
+    · left; cases b; simp_all [secGetApply, SecOutcome.apply, SecBuf.freeData]
+    · left; cases b; simp_all [secGetApply, SecOutcome.apply, SecBuf.freeData]
+    · right; refine ⟨b.size, ?_, Or.inr ⟨rfl, rfl⟩⟩
+      cases b; simp_all [secGetApply, SecOutcome.apply, SecBuf.freeData]
+    · right; refine ⟨0, ?_, Or.inr ⟨rfl, rfl⟩⟩
+      cases b; simp_all [secGetApply, SecOutcome.apply, SecBuf.freeData]
+    · left; cases b; simp_all [secGetApply, SecOutcome.apply, SecBuf.freeData]
+    · right; refine ⟨b.dataSize, ?_, Or.inl rfl⟩
+      cases b; simp_all [secGetApply, SecOutcome.apply, SecBuf.freeData]
+  · right; refine ⟨ds, ?_, hds⟩
+    subst h
+    cases b; simp_all [SecBuf.freeData]
+
+/-- the outcome a fresh section `b` gets on any stream over the bytes `D` of kind `K` -/
+def outcomeOf (c : Cls) (tr : List Trans) (D : Bytes) (K : StreamKind) (b : SecBuf) : SecOutcome :=
+  secOutcome c tr { data := D, kind := K } b.stype b.size b.offset b.streamSize true
+
+/-- a request in any state of the invariant lands in the one decided state -/
+theorem request_inv (c : Cls) (tr : List Trans) (ls : LoadSt) (b b' : SecBuf) (hb : Fresh b)
+    (h : SecInv b (outcomeOf c tr ls.st.data ls.st.kind b) b') :
+    (secGetData c tr ls b').2 = secGetApply b (outcomeOf c tr ls.st.data ls.st.kind b) := by
+  rw [secGetData_snd]
+  rcases h with h | ⟨ds, h, hds⟩
+  · subst h; rw [getApply_noop b _ hb]; simp
+  · subst h
+    obtain ⟨h1, h2, h3, h4⟩ := hb
+    have hc : (!({ b with dataSize := ds } : SecBuf).isLoaded && ({ b with dataSize := ds } : SecBuf).canLoad) = true := by
+      simp [h2, h3]
+    rw [if_pos hc]
+    have e : secOutcome c tr ls.st b.stype b.size b.offset b.streamSize b.data.isNone =
+        outcomeOf c tr ls.st.data ls.st.kind b := by
+      rw [h4]
+      exact secOutcome_indep c tr ls.st { data := ls.st.data, kind := ls.st.kind } rfl rfl _ _ _ _ _
+    show secGetApply _ (secOutcome c tr ls.st b.stype b.size b.offset b.streamSize b.data.isNone) = _
+    rw [e]
+    exact getApply_ds b _ ds hds
+
+theorem runSecOps_inv (c : Cls) (tr : List Trans) (D : Bytes) (K : StreamKind) (b : SecBuf) (hb : Fresh b) :
+    ∀ (ops : List DataOp) (ls : LoadSt) (b' : SecBuf), ls.st.data = D → ls.st.kind = K →
+      SecInv b (outcomeOf c tr D K b) b' →
+      (runSecOps c tr ls b' ops).1.st.data = D ∧ (runSecOps c tr ls b' ops).1.st.kind = K ∧
+      SecInv b (outcomeOf c tr D K b) (runSecOps c tr ls b' ops).2 := by
+  intro ops
+  induction ops with
+  | nil => intro ls b' hd hk h; exact ⟨hd, hk, h⟩
+  | cons op r ih =>
+    intro ls b' hd hk h
+    cases op with
+    | request =>
+      simp only [runSecOps]
+      apply ih
+      · simp [hd]
+      · simp [hk]
+      · left; subst hd; subst hk; exact request_inv c tr ls b b' hb h
+    | release => simp only [runSecOps]; exact ih ls _ hd hk (free_inv b _ hb b' h)
+    | disturb p e f g => simp only [runSecOps]; exact ih _ b' hd hk h
+
+theorem secLoad_lazy_fresh (c : Cls) (enc : Enc) (tr : List Trans) (ls : LoadSt) (hdrOff : Int) (idx : Nat) :
+    Fresh (secLoad c enc tr ls hdrOff true idx).2 := by
+  rw [secLoad_eq_ls]; simp only []
+  split <;> simp [Fresh, secInit]
+
+/-- **release then request restores the same observations** (stream in any state at both requests) -/
+theorem freeData_getData (c : Cls) (tr : List Trans) (ls1 ls2 : LoadSt) (b : SecBuf) (hb : Fresh b)
+    (hd : ls2.st.data = ls1.st.data) (hk : ls2.st.kind = ls1.st.kind) :
+    (secGetData c tr ls2 (secGetData c tr ls1 b).2.freeData).2 = (secGetData c tr ls1 b).2 := by
+  have h0 : SecInv b (outcomeOf c tr ls1.st.data ls1.st.kind b) b := Or.inr ⟨b.dataSize, rfl, Or.inl rfl⟩
+  have h1 := request_inv c tr ls1 b b hb h0
+  have h2 : SecInv b (outcomeOf c tr ls1.st.data ls1.st.kind b) (secGetData c tr ls1 b).2 := Or.inl h1
+  have h3 := free_inv b _ hb _ h2
+  rw [← hd, ← hk] at h3
+  rw [request_inv c tr ls2 b _ hb h3, hd, hk, h1]
+
+/-- **any interleaving** : a lazily loaded section, driven through any list of requests, releases
+    and stream disturbances and then asked for its data, shows what the eagerly loaded section
+    shows -/
+theorem interleaving_eq (c : Cls) (enc : Enc) (tr : List Trans) (ls ls1 : LoadSt) (hdrOff : Int)
+    (idx : Nat) (ops : List DataOp) (hd : ls1.st.data = ls.st.data) (hk : ls1.st.kind = ls.st.kind) :
+    let x := runSecOps c tr ls1 (secLoad c enc tr ls hdrOff true idx).2 ops
+    secObs (secGetData c tr x.1 x.2).2 = secObs (secLoad c enc tr ls hdrOff false idx).2 := by
+  intro x
+  have hb := secLoad_lazy_fresh c enc tr ls hdrOff idx
+  have h0 : SecInv (secLoad c enc tr ls hdrOff true idx).2
+      (outcomeOf c tr ls.st.data ls.st.kind (secLoad c enc tr ls hdrOff true idx).2)
+      (secLoad c enc tr ls hdrOff true idx).2 := Or.inr ⟨_, rfl, Or.inl rfl⟩
+  obtain ⟨g1, g2, g3⟩ := runSecOps_inv c tr ls.st.data ls.st.kind _ hb ops ls1 _ hd hk h0
+  rw [← g1, ← g2] at g3
+  have h1 := request_inv c tr x.1 _ x.2 hb g3
+  rw [h1, g1, g2]
+  have h2 := request_inv c tr ls _ _ hb h0
+  rw [← h2]
+  exact secGetData_lazy_eq_eager c enc tr ls ls hdrOff idx rfl rfl
+
+/-! ### segments -/
+
+structure SegObs where
+  index : Nat
+  stype : BitVec 32
+  flags : BitVec 32
+  offset : BitVec 64
+  vaddr : BitVec 64
+  paddr : BitVec 64
+  filesz : BitVec 64
+  memsz : BitVec 64
+  align : BitVec 64
+  secs : List (BitVec 16)
+  data : Option Bytes
+
+def segObs (g : Seg) : SegObs :=
+  { index := g.index, stype := g.stype, flags := g.flags, offset := g.offset, vaddr := g.vaddr,
+    paddr := g.paddr, filesz := g.filesz, memsz := g.memsz, align := g.align, secs := g.secs, data := g.data }
+
+/-- `segment_impl::free_data()` (as in Driver/Load.lean `segfree`) -/
+def segFreeData (g : Seg) : Seg := if g.isLazy then { g with data := none, isLoaded := false } else g
+
+theorem decodePhdr_lazy (c : Cls) (enc : Enc) (r : Bytes) (ss : BitVec 64) :
+    decodePhdr c enc r (segInit_ls ss true) = { decodePhdr c enc r (segInit_ls ss false) with isLazy := true } := by
+  cases c <;> rfl
+
+/-- **a lazily loaded segment, once its data is requested on a stream in any state, shows what
+    the eagerly loaded segment shows** (also when the eager data read fails: both show no data) -/
+theorem segGetData_lazy_eq_eager (c : Cls) (enc : Enc) (tr : List Trans) (ls ls' : LoadSt)
+    (hdrOff : Int) (hd : ls'.st.data = ls.st.data) (hk : ls'.st.kind = ls.st.kind) :
+    segObs (segGetData c tr ls' (segLoad c enc tr ls hdrOff true).2.1).2 =
+      segObs (segLoad c enc tr ls hdrOff false).2.1 := by
+  rw [segLoad_eq_ls, segLoad_eq_ls]
+  simp only [if_true, Bool.false_eq_true, if_false]
+  rw [segGetData_eq_ls]
+  simp only [decodePhdr_isLoaded_ls, segInit_ls, Bool.not_false, if_true]
+  rw [segLoadData_snd, segLoadData_snd]
+  have e := decodePhdr_lazy c enc (wr (List.replicate (phdrSize c) 0) 0 (hdrRead_ls tr ls.st hdrOff (phdrSize c)).2.1)
+    (hdrRead_ls tr ls.st hdrOff (phdrSize c)).2.2
+  simp only [segInit_ls] at e
+  rw [e]
+  simp only []
+  rw [segOutcome_indep c tr ls'.st (hdrRead_ls tr ls.st hdrOff (phdrSize c)).1 (by simp [hd]) (by simp [hk])]
+  generalize segOutcome c tr _ _ _ _ _ = o
+  rcases o with _ | _ | d <;> simp [segApply, segObs]
+
+def runSegOps (c : Cls) (tr : List Trans) : LoadSt → Seg → List DataOp → LoadSt × Seg
+  | ls, g, [] => (ls, g)
+  | ls, g, .request :: r => runSegOps c tr (segGetData c tr ls g).1 (segGetData c tr ls g).2 r
+  | ls, g, .release :: r => runSegOps c tr ls (segFreeData g) r
+  | ls, g, .disturb p e f k :: r => runSegOps c tr (disturbSt ls p e f k) g r
+
+def SegFresh (g : Seg) : Prop := g.isLazy = true ∧ g.isLoaded = false ∧ g.data = none
+
+def segOutcomeOf (c : Cls) (tr : List Trans) (D : Bytes) (K : StreamKind) (g : Seg) : Option (Option Bytes) :=
+  segOutcome c tr { data := D, kind := K } g.stype g.filesz g.offset g.streamSize
+
+theorem seg_request_inv (c : Cls) (tr : List Trans) (ls : LoadSt) (g g' : Seg) (hg : SegFresh g)
+    (h : g' = g ∨ g' = (segApply g (segOutcomeOf c tr ls.st.data ls.st.kind g)).1) :
+    (segGetData c tr ls g').2 = (segApply g (segOutcomeOf c tr ls.st.data ls.st.kind g)).1 := by
+  obtain ⟨h1, h2, h3⟩ := hg
+  have e : segOutcome c tr ls.st g.stype g.filesz g.offset g.streamSize =
+      segOutcomeOf c tr ls.st.data ls.st.kind g :=
+    segOutcome_indep c tr ls.st { data := ls.st.data, kind := ls.st.kind } rfl rfl _ _ _ _
+  rw [segGetData_eq_ls]
+  rcases h with h | h
+  · subst h
+    simp only [h2, Bool.not_false, if_true]
+    rw [segLoadData_snd, e]
+  · subst h
+    generalize ho : segOutcomeOf c tr ls.st.data ls.st.kind g = o at *
+    rcases o with _ | _ | d
+    · simp only [segApply, h2, Bool.not_false, if_true]
+      rw [segLoadData_snd, e]; rfl
+    · simp only [segApply, h2, Bool.not_false, if_true]
+      rw [segLoadData_snd]
+      simp only [e, segApply]
+    · simp [segApply]
+
+theorem seg_free_inv (g : Seg) (o : Option (Option Bytes)) (hg : SegFresh g) (g' : Seg)
+    (h : g' = g ∨ g' = (segApply g o).1) : segFreeData g' = g ∨ segFreeData g' = (segApply g o).1 := by
+  obtain ⟨h1, h2, h3⟩ := hg
+  left
+  rcases h with h | h
+  · rw [h]; cases g; simp_all [segFreeData]
+  · rw [h]
+    rcases o with _ | _ | d <;> (cases g; simp_all [segFreeData, segApply])
+
+theorem runSegOps_inv (c : Cls) (tr : List Trans) (D : Bytes) (K : StreamKind) (g : Seg) (hg : SegFresh g) :
+    ∀ (ops : List DataOp) (ls : LoadSt) (g' : Seg), ls.st.data = D → ls.st.kind = K →
+      (g' = g ∨ g' = (segApply g (segOutcomeOf c tr D K g)).1) →
+      (runSegOps c tr ls g' ops).1.st.data = D ∧ (runSegOps c tr ls g' ops).1.st.kind = K ∧
+      ((runSegOps c tr ls g' ops).2 = g ∨
+       (runSegOps c tr ls g' ops).2 = (segApply g (segOutcomeOf c tr D K g)).1) := by
+  intro ops
+  induction ops with
+  | nil => intro ls g' hd hk h; exact ⟨hd, hk, h⟩
+  | cons op r ih =>
+    intro ls g' hd hk h
+    cases op with
+    | request =>
+      simp only [runSegOps]
+      apply ih
+      · rw [segGetData_eq_ls]; split <;> simp [hd]
+      · rw [segGetData_eq_ls]; split <;> simp [hk]
+      · right; subst hd; subst hk; exact seg_request_inv c tr ls g g' hg h
+    | release => simp only [runSegOps]; exact ih ls _ hd hk (seg_free_inv g _ hg g' h)
+    | disturb p e f k => simp only [runSegOps]; exact ih _ g' hd hk h
+
+theorem segLoad_lazy_fresh (c : Cls) (enc : Enc) (tr : List Trans) (ls : LoadSt) (hdrOff : Int) :
+    SegFresh (segLoad c enc tr ls hdrOff true).2.1 := by
+  rw [segLoad_eq_ls]; simp [SegFresh, segInit_ls]
+
+/-- **any interleaving, segments** -/
+theorem seg_interleaving_eq (c : Cls) (enc : Enc) (tr : List Trans) (ls ls1 : LoadSt) (hdrOff : Int)
+    (ops : List DataOp) (hd : ls1.st.data = ls.st.data) (hk : ls1.st.kind = ls.st.kind) :
+    let x := runSegOps c tr ls1 (segLoad c enc tr ls hdrOff true).2.1 ops
+    segObs (segGetData c tr x.1 x.2).2 = segObs (segLoad c enc tr ls hdrOff false).2.1 := by
+  intro x
+  have hg := segLoad_lazy_fresh c enc tr ls hdrOff
+  obtain ⟨g1, g2, g3⟩ := runSegOps_inv c tr ls.st.data ls.st.kind _ hg ops ls1 _ hd hk (Or.inl rfl)
+  rw [← g1, ← g2] at g3
+  have h1 := seg_request_inv c tr x.1 _ x.2 hg g3
+  rw [h1, g1, g2]
+  have h2 := seg_request_inv c tr ls _ _ hg (Or.inl rfl)
+  rw [← h2]
+  exact segGetData_lazy_eq_eager c enc tr ls ls hdrOff rfl rfl
+
+/-! ### address translation: read level -/
+
+/-- a range that lies inside one table entry whose image in the container equals the plain bytes
+    is represented (this is how `Represents` is established for a concrete container) -/
+theorem rangeRep_of_entry (cont : Bytes) (table : List Trans) (img : Bytes) (e : Trans) (off n : Nat)
+    (hne : table ≠ [])
+    (hfind : table.find? (fun e => decide (e.start ≤ Int.ofNat off) && decide (Int.ofNat off - e.start < e.size)) = some e)
+    (hs : 0 ≤ e.start) (hm : 0 ≤ e.mappedTo)
+    (hin : Int.ofNat off + Int.ofNat n ≤ e.start + e.size)
+    (hc : e.mappedTo.toNat + e.size.toNat ≤ cont.length) (hi : e.start.toNat + e.size.toNat ≤ img.length)
+    (heq : slice cont e.mappedTo.toNat e.size.toNat = slice img e.start.toNat e.size.toNat) :
+    RangeRep cont table img off n := by
+  have hp := List.find?_some hfind
+  simp only [Bool.and_eq_true, decide_eq_true_eq] at hp
+  obtain ⟨hp1, hp2⟩ := hp
+  have ht : trApply table (Int.ofNat off) = Int.ofNat off - e.start + e.mappedTo := by
+    unfold trApply
+    cases table with
+    | nil => exact absurd rfl hne
+    | cons a l => simp only [hfind]
+  rw [RangeRep, ht]
+  simp only [Int.ofNat_eq_natCast] at *
+  have hsz : 0 ≤ e.size := by omega
+  have e1 : ((off : Int) - e.start + e.mappedTo).toNat = e.mappedTo.toNat + (off - e.start.toNat) := by omega
+  have hoff : e.start.toNat ≤ off := by omega
+  refine ⟨by omega, by omega, by omega, ?_⟩
+  rw [e1]
+  have h1 : slice cont (e.mappedTo.toNat + (off - e.start.toNat)) n =
+      slice (slice cont e.mappedTo.toNat e.size.toNat) (off - e.start.toNat) n :=
+    (C02.slice_slice cont _ _ _ _ (by omega)).symm
+  have h2 : slice img off n = slice (slice img e.start.toNat e.size.toNat) (off - e.start.toNat) n := by
+    rw [C02.slice_slice img _ _ _ _ (by omega)]
+    congr 1; omega
+  rw [h1, h2, heq]
+
+/-- **translated read = plain read** : the loader's data read on the container, at the translated
+    position, delivers exactly the bytes (and the completeness flag) the plain read delivers on the
+    plain image — for streams in any position / error state -/
+theorem translated_read_eq (cont img : Bytes) (table : List Trans) (sc si : IStream)
+    (hsc : sc.data = cont) (hsi : si.data = img) (offset n : BitVec 64)
+    (hc63 : cont.length < 9223372036854775808) (hi63 : img.length < 9223372036854775808)
+    (hrep : RangeRep cont table img offset.toNat n.toNat) :
+    (isolatedRead sc (secOff table offset) n).2 = (isolatedRead si offset n).2 ∧
+    (isolatedRead si offset n).2 = (slice img offset.toNat n.toNat, true) := by
+  obtain ⟨h0, h1, h2, h3⟩ := hrep
+  have hto := secOff_toNat table offset (by omega) h0 (by omega)
+  subst hsc; subst hsi
+  rw [isolatedRead_ok sc (secOff table offset) n (by rw [hto]; exact h1) hc63,
+    isolatedRead_ok si offset n h2 hi63]
+  simp only [hto, h3, and_self]
+
+/-- the same for the header-record reads (`seekg(translate(pos)); read`) on a good stream -/
+theorem translated_hdrRead_eq (cont img : Bytes) (table : List Trans) (sc si : IStream)
+    (hne : table ≠ [])
+    (hsc : sc.data = cont) (hsi : si.data = img) (hce : sc.eof = false) (hcf : sc.fail = false)
+    (hie : si.eof = false) (hif : si.fail = false) (k n : Nat)
+    (hrep : RangeRep cont table img k n) :
+    (hdrRead_ls table sc (Int.ofNat k) n).2.1 = (hdrRead_ls [] si (Int.ofNat k) n).2.1 ∧
+    (hdrRead_ls table sc (Int.ofNat k) n).1.gcount = n ∧ (hdrRead_ls [] si (Int.ofNat k) n).1.gcount = n ∧
+    (hdrRead_ls table sc (Int.ofNat k) n).1.eof = false ∧ (hdrRead_ls table sc (Int.ofNat k) n).1.fail = false := by
+  obtain ⟨h0, h1, h2, h3⟩ := hrep
+  subst hsc; subst hsi
+  rw [hdrRead_inside si hie hif k n h2]
+  have hss : streamSizeOf table sc = (sc, u64max) := by
+    unfold streamSizeOf
+    cases table with
+    | nil => exact absurd rfl hne
+    | cons a l => rfl
+  unfold hdrRead_ls
+  rw [hss]
+  simp only []
+  rw [IStream.seekg_ok_ls sc hcf _ h0 (by omega),
+    IStream.read_ok_ls { sc with pos := (trApply table (Int.ofNat k)).toNat, eof := false } rfl hcf n h1]
+  simp only [Int.ofNat_eq_natCast] at *
+  simp [h3, hcf]
+
+
+/-! ### whole load: the open finding F15 -/
+
+def loadOk (r : M LoadRes) : Option Bool :=
+  match r with
+  | .ok r => some r.ok
+  | .error _ => none
+
+/-- ELF32/LSB, no sections, one PT_LOAD whose file range `[1000, 1004)` is beyond the 84-byte file -/
+def f15Image : Bytes := 
+  [127, 69, 76, 70, 1, 1, 1, 0, 0, 0, 0, 0, 0, 0, 0, 0, 2, 0, 3, 0, 1, 0, 0, 0, 0, 0, 0, 0, 52, 0, 0, 0, 0, 0, 0, 0, 0, 0, 0, 0, 52, 0, 32, 0, 1, 0, 40, 0, 0, 0, 0, 0, 1, 0, 0, 0, 232, 3, 0, 0, 0, 0, 0, 0, 0, 0, 0, 0, 4, 0, 0, 0, 4, 0, 0, 0, 4, 0, 0, 0, 1, 0, 0, 0]
+
+/-- **F15 (open)** : `load()` answers differently for the same image — eagerly `false` (the segment's
+    data cannot be read), lazily `true` (the data is neither read nor bounds-checked) -/
+theorem lazy_load_unreadable_segment_witness :
+    loadOk (load {} { data := f15Image } false) = some false ∧
+    loadOk (load {} { data := f15Image } true) = some true := by
+  decide +kernel
+
+/-! ### whole load, well-formed images -/
+
+/-- header fields and name of a section as the getters return them -/
+def secFields (b : SecBuf) :=
+  (b.index, b.name, b.nameOff, b.stype, b.flags, b.addr, b.offset, b.size, b.link, b.info, b.addrAlign, b.entSize)
+def segFields (g : Seg) :=
+  (g.index, g.stype, g.flags, g.offset, g.vaddr, g.paddr, g.filesz, g.memsz, g.align, g.secs)
+/-- the bytes `get_data()` exposes in `[0, get_size())` when asked on stream `ls` -/
+def secView (c : Cls) (tr : List Trans) (ls : LoadSt) (b : SecBuf) : Bytes :=
+  ((secGetData c tr ls b).2.data.getD []).take (secGetData c tr ls b).2.size.toNat
+def segView (c : Cls) (tr : List Trans) (ls : LoadSt) (g : Seg) : Bytes :=
+  ((segGetData c tr ls g).2.data.getD []).take g.filesz.toNat
+
+/-- two loaded objects show the same things (data requested on any streams over the same image) -/
+def ViewEq (img : Bytes) (a b : Obj) : Prop :=
+  a.cls = b.cls ∧ a.enc = b.enc ∧ a.hdr = b.hdr ∧
+  a.secs.length = b.secs.length ∧ a.segs.length = b.segs.length ∧
+  (∀ i (h1 : i < a.secs.length) (h2 : i < b.secs.length),
+    secFields a.secs[i] = secFields b.secs[i] ∧
+    ∀ ls1 ls2 : LoadSt, ls1.st.data = img → ls2.st.data = img →
+      secView a.cls [] ls1 a.secs[i] = secView b.cls [] ls2 b.secs[i]) ∧
+  (∀ j (h1 : j < a.segs.length) (h2 : j < b.segs.length),
+    segFields a.segs[j] = segFields b.segs[j] ∧
+    ∀ ls1 ls2 : LoadSt, ls1.st.data = img → ls2.st.data = img →
+      segView a.cls [] ls1 a.segs[j] = segView b.cls [] ls2 b.segs[j])
+
+theorem bv_eq {n} {x y : BitVec n} {k : Nat} (h1 : x.toNat = k) (h2 : y.toNat = k) : x = y :=
+  BitVec.eq_of_toNat_eq (h1.trans h2.symm)
+
+theorem map_toNat_inj : ∀ (l1 l2 : List (BitVec 16)), l1.map (·.toNat) = l2.map (·.toNat) → l1 = l2
+  | [], [], _ => rfl
+  | [], _ :: _, h => by simp at h
+  | _ :: _, [], h => by simp at h
+  | a :: l1, b :: l2, h => by
+    simp only [List.map_cons, List.cons.injEq] at h
+    rw [BitVec.eq_of_toNat_eq h.1, map_toNat_inj l1 l2 h.2]
+
+/-- two objects that both show what the specification says show the same -/
+theorem viewEq_of_spec (img : Bytes) (ra rb : LoadRes) (ha : C02.LoadSpec img ra) (hb : C02.LoadSpec img rb) :
+    ra.ok = rb.ok ∧ ViewEq img ra.obj rb.obj := by
+  obtain ⟨a1, a2, a3, ⟨ah, a4, a5⟩, _, _, _, a6, a7, a8, a9⟩ := ha
+  obtain ⟨b1, b2, b3, ⟨bh, b4, b5⟩, _, _, _, b6, b7, b8, b9⟩ := hb
+  refine ⟨by rw [a1, b1], by rw [a2, b2], by rw [a3, b3], by rw [a4, b4, a5.1, b5.1], by rw [a6, b6],
+    by rw [a8, b8], ?_, ?_⟩
+  · intro i h1 h2
+    obtain ⟨x0, x1, x2, x3, x4, x5, x6, x7, x8, x9, x10, x11, x12⟩ := a7 i h1
+    obtain ⟨y0, y1, y2, y3, y4, y5, y6, y7, y8, y9, y10, y11, y12⟩ := b7 i h2
+    refine ⟨?_, ?_⟩
+    · simp only [secFields, Prod.mk.injEq]
+      exact ⟨by rw [x0, y0], by rw [x11, y11], bv_eq x1 y1, bv_eq x2 y2, bv_eq x3 y3, bv_eq x4 y4, bv_eq x5 y5,
+        bv_eq x6 y6, bv_eq x7 y7, bv_eq x8 y8, bv_eq x9 y9, bv_eq x10 y10⟩
+    · intro ls1 ls2 h1 h2
+      unfold secView
+      rw [a2, b2, x12 ls1 h1, y12 ls2 h2]
+  · intro j h1 h2
+    obtain ⟨x0, x1, x2, x3, x4, x5, x6, x7, x8, x9, x10⟩ := a9 j h1
+    obtain ⟨y0, y1, y2, y3, y4, y5, y6, y7, y8, y9, y10⟩ := b9 j h2
+    refine ⟨?_, ?_⟩
+    · simp only [segFields, Prod.mk.injEq]
+      refine ⟨by rw [x0, y0], bv_eq x1 y1, bv_eq x2 y2, bv_eq x3 y3, bv_eq x4 y4, bv_eq x5 y5, bv_eq x6 y6,
+        bv_eq x7 y7, bv_eq x8 y8, ?_⟩
+      have := x9.trans y9.symm
+      exact map_toNat_inj _ _ this
+    · intro ls1 ls2 h1 h2
+      unfold segView
+      rw [a2, b2, x10 ls1 h1, y10 ls2 h2]
+
+/-- **lazy = eager, well-formed images** : both loads succeed and show the same header, the same
+    section / segment fields, names and members, and the same data whenever and on whatever stream
+    state the data is requested (composition of C02 `load_eq_spec` for both modes) -/
+theorem lazy_eq_eager_wf (img : Bytes) (o : Obj) (k : StreamKind) (htr : o.trans = [])
+    (hwf : C02.WellFormedImage img) :
+    ∃ rl re : LoadRes, load o { data := img, kind := k } true = .ok rl ∧
+      load o { data := img, kind := k } false = .ok re ∧ rl.ok = re.ok ∧ ViewEq img rl.obj re.obj := by
+  obtain ⟨rl, h1, s1⟩ := C02.load_eq_spec img o k true htr hwf
+  obtain ⟨re, h2, s2⟩ := C02.load_eq_spec img o k false htr hwf
+  exact ⟨rl, re, h1, h2, viewEq_of_spec img rl re s1 s2⟩
+
+example : ∃ rl re : LoadRes, load {} { data := C02.wfImage } true = .ok rl ∧
+    load {} { data := C02.wfImage } false = .ok re ∧ rl.ok = re.ok ∧ ViewEq C02.wfImage rl.obj re.obj :=
+  lazy_eq_eager_wf C02.wfImage {} .str rfl (by decide +kernel)
+
+/-! ### whole load, every image (no address translation) -/
+
+/-- two streams over the same bytes whose `failbit`s agree (positions, `eofbit`, last count may differ) -/
+def FlagEq (s s' : IStream) : Prop := s.data = s'.data ∧ s.kind = s'.kind ∧ s.fail = s'.fail
+
+theorem FlagEq.refl (s : IStream) : FlagEq s s := ⟨rfl, rfl, rfl⟩
+theorem FlagEq.symm {s s' : IStream} (h : FlagEq s s') : FlagEq s' s := ⟨h.1.symm, h.2.1.symm, h.2.2.symm⟩
+theorem FlagEq.trans {a b c : IStream} (h : FlagEq a b) (h' : FlagEq b c) : FlagEq a c :=
+  ⟨h.1.trans h'.1, h.2.1.trans h'.2.1, h.2.2.trans h'.2.2⟩
+
+/-- the record read (size probe, seek, read) sees only the bytes, the kind and the failbit -/
+theorem hdrRead_flagEq (tr : List Trans) (s s' : IStream) (h : FlagEq s s') (off : Int) (n : Nat) :
+    (hdrRead_ls tr s off n).2 = (hdrRead_ls tr s' off n).2 ∧
+    (hdrRead_ls tr s off n).1.gcount = (hdrRead_ls tr s' off n).1.gcount ∧
+    FlagEq (hdrRead_ls tr s off n).1 (hdrRead_ls tr s' off n).1 := by
+  obtain ⟨hd, hk, hf⟩ := h
+  cases s with
+  | mk d p e f g k =>
+  cases s' with
+  | mk d' p' e' f' g' k' =>
+    simp only at hd hk hf
+    subst hd; subst hk; subst hf
+    unfold hdrRead_ls streamSizeOf FlagEq
+    cases tr with
+    | nil =>
+      cases f
+      · simp [IStream.seekEnd, IStream.tellg, IStream.good, IStream.seekg, IStream.read]
+        repeat' split
+        all_goals simp_all
+      · simp [IStream.seekEnd, IStream.tellg, IStream.good, IStream.seekg, IStream.read]
+    | cons a l =>
+      cases f
+      · simp [IStream.seekg, IStream.read, IStream.good]
+        repeat' split
+        all_goals simp_all
+      · simp [IStream.seekg, IStream.read, IStream.good]
+
+/-- a record read that leaves the stream unfailed was made on an unfailed stream, so the size
+    probe saw the real length -/
+theorem hdrRead_ss (s : IStream) (off : Int) (n : Nat) (h : (hdrRead_ls [] s off n).1.fail = false) :
+    (hdrRead_ls [] s off n).2.2 = BitVec.ofNat 64 s.data.length := by
+  cases s with
+  | mk d p e f g k =>
+    unfold hdrRead_ls streamSizeOf at h ⊢
+    cases f
+    · simp [IStream.seekEnd, IStream.tellg, IStream.good]
+    · simp [IStream.seekEnd, IStream.tellg, IStream.good, IStream.seekg, IStream.read] at h
+
+theorem isolatedRead_fail_of_fail (s : IStream) (off n : BitVec 64) (h : s.fail = true) :
+    (isolatedRead s off n).1.fail = true := by
+  rw [(isolatedRead_flags s off n).2, h]; simp
+
+/-- with the real length as `stream_size`, `load_data` reads only ranges inside the stream -/
+theorem secOutcome_reads_inrange (c : Cls) (st : IStream) (stype : BitVec 32) (size offset : BitVec 64)
+    (len : Nat) (nd : Bool) (hl : len < 18446744073709551616)
+    (h : (secOutcome c [] st stype size offset (BitVec.ofNat 64 len) nd).reads = true) :
+    offset.toNat + size.toNat ≤ len := by
+  unfold secOutcome at h
+  simp only [secOff_nil] at h
+  have ho := offset.isLt; have hs := size.isLt
+  by_cases g1 : BitVec.ult (BitVec.ofNat 64 len) offset = true
+  · cases c <;> simp [sec32_load_data_off_gt, sec64_load_data_off_gt, g1, SecOutcome.reads] at h
+  · by_cases g2 : (BitVec.ult (BitVec.ofNat 64 len) size || BitVec.ult (BitVec.ofNat 64 len - offset) size) = true
+    · cases c <;> simp [sec32_load_data_off_gt, sec64_load_data_off_gt, sec32_load_data_size_gt,
+        sec64_load_data_size_gt, g1, g2, SecOutcome.reads] at h
+    · simp only [BitVec.ult, BitVec.toNat_sub, BitVec.toNat_ofNat, Nat.reducePow, Bool.or_eq_true,
+        decide_eq_true_eq, not_or, Nat.not_lt] at g1 g2
+      omega
+
+theorem secGetData_fail_preserved (c : Cls) (ls : LoadSt) (b : SecBuf)
+    (h63 : ls.st.data.length < 9223372036854775808)
+    (hss : ls.st.fail = false → b.streamSize = BitVec.ofNat 64 ls.st.data.length) :
+    (secGetData c [] ls b).1.st.fail = ls.st.fail := by
+  rw [secGetData_st]
+  split
+  · rename_i hr
+    simp only [Bool.and_eq_true] at hr
+    cases hf : ls.st.fail
+    · rw [hss hf] at hr
+      have := secOutcome_reads_inrange c ls.st b.stype b.size b.offset _ _ (by omega) hr.2
+      rw [secOff_nil, isolatedRead_ok ls.st b.offset b.size this h63]
+      exact hf
+    · exact isolatedRead_fail_of_fail _ _ _ hf
+  · rfl
+
+theorem fileDataOf_indep (c : Cls) (tr : List Trans) (s s' : IStream) (hd : s.data = s'.data)
+    (hk : s.kind = s'.kind) (b : SecBuf) : fileDataOf c tr s b = fileDataOf c tr s' b := by
+  unfold fileDataOf
+  simp only [secLoadData_snd]
+  rw [secOutcome_indep c tr s s' hd hk]
+
+/-- the section object `section_impl::load` produces depends on the stream only through its bytes,
+    kind and failbit — in either mode -/
+theorem secLoad_snd_flagEq (c : Cls) (enc : Enc) (tr : List Trans) (ls ls' : LoadSt)
+    (h : FlagEq ls.st ls'.st) (off : Int) (isLazy : Bool) (idx : Nat) :
+    (secLoad c enc tr ls off isLazy idx).2 = (secLoad c enc tr ls' off isLazy idx).2 := by
+  obtain ⟨h1, h2, h3⟩ := hdrRead_flagEq tr ls.st ls'.st h off (shdrSize c)
+  rw [secLoad_eq_ls, secLoad_eq_ls]
+  simp only []
+  rw [h2]
+  have e1 : (hdrRead_ls tr ls.st off (shdrSize c)).2.1 = (hdrRead_ls tr ls'.st off (shdrSize c)).2.1 := by rw [h1]
+  have e2 : (hdrRead_ls tr ls.st off (shdrSize c)).2.2 = (hdrRead_ls tr ls'.st off (shdrSize c)).2.2 := by rw [h1]
+  rw [e1, e2]
+  split
+  · rfl
+  · rw [fileDataOf_indep c tr _ _ h3.1 h3.2.1]
+    cases isLazy
+    · simp only [Bool.false_eq_true, if_false]
+      rw [secGetData_snd, secGetData_snd]
+      simp only []
+      rw [secOutcome_indep c tr _ _ h3.1 h3.2.1]
+    · rfl
+
+theorem secLoad_st_flagEq (c : Cls) (enc : Enc) (lsL lsE : LoadSt) (h : FlagEq lsL.st lsE.st)
+    (h63 : lsE.st.data.length < 9223372036854775808) (off : Int) (idx : Nat) :
+    FlagEq (secLoad c enc [] lsL off true idx).1.st (secLoad c enc [] lsE off false idx).1.st := by
+  obtain ⟨h1, h2, h3⟩ := hdrRead_flagEq [] lsL.st lsE.st h off (shdrSize c)
+  rw [secLoad_eq_ls, secLoad_eq_ls]
+  simp only []
+  rw [h2]
+  split
+  · exact h3
+  · simp only [if_true, Bool.false_eq_true, if_false]
+    refine ⟨by simp [h.1], by simp [h.2.1], ?_⟩
+    rw [secGetData_fail_preserved c _ _ (by simpa using h63)
+      (by intro hf; simp only [decodeShdr_streamSize_ls, secInit]; simpa using hdrRead_ss lsE.st off (shdrSize c) hf)]
+    exact h3.2.2
+
+/-! #### pairs of a lazily and an eagerly loaded section -/
+
+def Over (D : Bytes) (K : StreamKind) (ls : LoadSt) : Prop := ls.st.data = D ∧ ls.st.kind = K
+
+/-- a settled section: requesting its data changes nothing observable and is idempotent -/
+def Stable (c : Cls) (D : Bytes) (K : StreamKind) (be : SecBuf) : Prop :=
+  ∀ ls, Over D K ls → secObs (secGetData c [] ls be).2 = secObs be ∧
+    (!(secGetData c [] ls be).2.isLoaded && (secGetData c [] ls be).2.canLoad) = false
+
+/-- `bl` is some state of a lazily loaded section whose eventual data is what `be` already shows -/
+def SecPair (c : Cls) (D : Bytes) (K : StreamKind) (bl be : SecBuf) : Prop :=
+  ∃ b0, Fresh b0 ∧ SecInv b0 (outcomeOf c [] D K b0) bl ∧
+    secObs (secGetApply b0 (outcomeOf c [] D K b0)) = secObs be ∧ Stable c D K be
+
+theorem getApply_settled (b : SecBuf) (o : SecOutcome) :
+    (!(secGetApply b o).isLoaded && (secGetApply b o).canLoad) = false := by
+  rcases o with _ | _ | d | _ | (_ | _) <;> simp [secGetApply, SecOutcome.apply]
+
+theorem stable_of_settled (c : Cls) (D : Bytes) (K : StreamKind) (b : SecBuf)
+    (h : (!b.isLoaded && b.canLoad) = false) : Stable c D K b := by
+  intro ls _
+  have : secGetData c [] ls b = (ls, b) := by rw [secGetData_eq_ls, h]; simp
+  rw [this]; exact ⟨rfl, h⟩
+
+/-- the conclusion one wants from a pair: any interleaving on the lazy side, then a request,
+    shows what a request on the eager side shows -/
+theorem SecPair.obs {c : Cls} {D : Bytes} {K : StreamKind} {bl be : SecBuf} (h : SecPair c D K bl be)
+    (ops : List DataOp) (ls1 ls2 : LoadSt) (h1 : Over D K ls1) (h2 : Over D K ls2) :
+    secObs (secGetData c [] (runSecOps c [] ls1 bl ops).1 (runSecOps c [] ls1 bl ops).2).2 =
+      secObs (secGetData c [] ls2 be).2 := by
+  obtain ⟨b0, hf, hinv, hobs, hst⟩ := h
+  obtain ⟨g1, g2, g3⟩ := runSecOps_inv c [] D K b0 hf ops ls1 bl h1.1 h1.2 hinv
+  rw [← g1, ← g2] at g3
+  rw [request_inv c [] _ b0 _ hf g3, g1, g2, hobs, (hst ls2 h2).1]
+
+theorem SecPair.get {c : Cls} {D : Bytes} {K : StreamKind} {bl be : SecBuf} (h : SecPair c D K bl be)
+    (ls1 ls2 : LoadSt) (h1 : Over D K ls1) (h2 : Over D K ls2) :
+    SecPair c D K (secGetData c [] ls1 bl).2 (secGetData c [] ls2 be).2 ∧
+    secObs (secGetData c [] ls1 bl).2 = secObs (secGetData c [] ls2 be).2 := by
+  obtain ⟨b0, hf, hinv, hobs, hst⟩ := h
+  have hi : SecInv b0 (outcomeOf c [] ls1.st.data ls1.st.kind b0) bl := by rw [h1.1, h1.2]; exact hinv
+  have hr := request_inv c [] ls1 b0 bl hf hi
+  rw [h1.1, h1.2] at hr
+  refine ⟨⟨b0, hf, Or.inl hr, by rw [hobs, (hst ls2 h2).1], stable_of_settled c D K _ (hst ls2 h2).2⟩, ?_⟩
+  rw [hr, hobs, (hst ls2 h2).1]
+
+theorem eager_stable (c : Cls) (enc : Enc) (D : Bytes) (K : StreamKind) (ls : LoadSt) (off : Int) (idx : Nat) :
+    Stable c D K (secLoad c enc [] ls off false idx).2 := by
+  rw [secLoad_eq_ls]
+  simp only []
+  split
+  · intro ls' _
+    rw [secGetData_snd]
+    simp only [secInit, Bool.not_false, Bool.and_self, if_true, Option.isNone_none]
+    have key : ∀ ss, secOutcome c [] ls'.st 0#32 0#64 0#64 ss true = .refuse ∨
+        secOutcome c [] ls'.st 0#32 0#64 0#64 ss true = .keep true :=
+      fun ss => secOutcome_nobits c [] ls'.st _ _ _ ss (by decide)
+    rcases key (hdrRead_ls [] ls.st off (shdrSize c)).2.2 with h | h <;>
+      simp [h, secGetApply, SecOutcome.apply, secObs]
+  · simp only [Bool.false_eq_true, if_false]
+    apply stable_of_settled
+    rw [secGetData_snd]
+    simp only [decodeShdr_isLoaded_ls, decodeShdr_canLoad_ls, secInit, Bool.not_false, Bool.and_self, if_true]
+    exact getApply_settled _ _
+
+theorem secPair_of_load (c : Cls) (enc : Enc) (D : Bytes) (K : StreamKind) (lsL lsE : LoadSt)
+    (h : FlagEq lsL.st lsE.st) (hE : Over D K lsE) (off : Int) (idx : Nat) :
+    SecPair c D K (secLoad c enc [] lsL off true idx).2 (secLoad c enc [] lsE off false idx).2 := by
+  rw [secLoad_snd_flagEq c enc [] lsL lsE h off true idx]
+  have hf := secLoad_lazy_fresh c enc [] lsE off idx
+  have h0 : SecInv (secLoad c enc [] lsE off true idx).2
+      (outcomeOf c [] lsE.st.data lsE.st.kind (secLoad c enc [] lsE off true idx).2)
+      (secLoad c enc [] lsE off true idx).2 := Or.inr ⟨_, rfl, Or.inl rfl⟩
+  have hr := request_inv c [] lsE _ _ hf h0
+  have he := secGetData_lazy_eq_eager c enc [] lsE lsE off idx rfl rfl
+  rw [hr, hE.1, hE.2] at he
+  rw [hE.1, hE.2] at h0
+  exact ⟨_, hf, h0, he, eager_stable c enc D K lsE off idx⟩
+
+theorem getApply_name (b : SecBuf) (o : SecOutcome) (s : Bytes) :
+    secGetApply { b with name := s } o = { secGetApply b o with name := s } := by
+  rcases o with _ | _ | d | _ | (_ | _) <;> simp [secGetApply, SecOutcome.apply]
+
+theorem secGetData_name (c : Cls) (tr : List Trans) (ls : LoadSt) (b : SecBuf) (s : Bytes) :
+    (secGetData c tr ls { b with name := s }).2 = { (secGetData c tr ls b).2 with name := s } := by
+  rw [secGetData_snd, secGetData_snd]
+  simp only []
+  split
+  · exact getApply_name _ _ _
+  · rfl
+
+theorem secObs_name (b : SecBuf) (s : Bytes) : secObs { b with name := s } = { secObs b with name := s } := rfl
+
+/-- setting the same name on both sides keeps a pair a pair -/
+theorem SecPair.name {c : Cls} {D : Bytes} {K : StreamKind} {bl be : SecBuf} (h : SecPair c D K bl be)
+    (s : Bytes) : SecPair c D K { bl with name := s } { be with name := s } := by
+  obtain ⟨b0, hf, hinv, hobs, hst⟩ := h
+  have ho : outcomeOf c [] D K { b0 with name := s } = outcomeOf c [] D K b0 := rfl
+  have hga := getApply_name b0 (outcomeOf c [] D K b0) s
+  refine ⟨{ b0 with name := s }, hf, ?_, ?_, ?_⟩
+  · rw [ho]
+    rcases hinv with h | ⟨ds, h, hds⟩
+    · left; rw [h]; exact hga.symm
+    · right
+      refine ⟨ds, by rw [h], ?_⟩
+      rcases hds with h' | ⟨h1, h2⟩
+      · left; exact h'
+      · right
+        refine ⟨?_, by rw [hga]; exact h2⟩
+        generalize outcomeOf c [] D K b0 = o at h1
+        rcases o with _ | _ | d | _ | (_ | _) <;> simp_all [SecOutcome.apply]
+  · rw [ho, hga]
+    show ({ secObs (secGetApply b0 (outcomeOf c [] D K b0)) with name := s } : SecObs) = { secObs be with name := s }
+    rw [hobs]
+  · intro ls hls
+    rw [secGetData_name]
+    refine ⟨?_, (hst ls hls).2⟩
+    show ({ secObs (secGetData c [] ls be).2 with name := s } : SecObs) = { secObs be with name := s }
+    rw [(hst ls hls).1]
+
+/-- header fields (everything but data / data size) agree in a pair -/
+def hdrFields (b : SecBuf) :=
+  (b.index, b.name, b.nameOff, b.stype, b.flags, b.addr, b.offset, b.size, b.link, b.info, b.addrAlign, b.entSize)
+
+theorem getApply_hdrFields (b : SecBuf) (o : SecOutcome) : hdrFields (secGetApply b o) = hdrFields b := by
+  rcases o with _ | _ | d | _ | (_ | _) <;> simp [secGetApply, SecOutcome.apply, hdrFields]
+
+theorem SecPair.fields {c : Cls} {D : Bytes} {K : StreamKind} {bl be : SecBuf} (h : SecPair c D K bl be) :
+    hdrFields bl = hdrFields be := by
+  obtain ⟨b0, hf, hinv, hobs, hst⟩ := h
+  have h1 : hdrFields bl = hdrFields b0 := by
+    rcases hinv with h | ⟨ds, h, _⟩
+    · rw [h, getApply_hdrFields]
+    · rw [h]; rfl
+  have h2 : hdrFields (secGetApply b0 (outcomeOf c [] D K b0)) = hdrFields be := by
+    simp only [secObs, SecObs.mk.injEq] at hobs
+    simp only [hdrFields, Prod.mk.injEq]
+    exact ⟨hobs.1, hobs.2.1, hobs.2.2.1, hobs.2.2.2.1, hobs.2.2.2.2.1, hobs.2.2.2.2.2.1, hobs.2.2.2.2.2.2.1,
+      hobs.2.2.2.2.2.2.2.1, hobs.2.2.2.2.2.2.2.2.1, hobs.2.2.2.2.2.2.2.2.2.1, hobs.2.2.2.2.2.2.2.2.2.2.1,
+      hobs.2.2.2.2.2.2.2.2.2.2.2.1⟩
+  rw [h1, ← getApply_hdrFields b0 (outcomeOf c [] D K b0), h2]
+
+theorem getString_obs (b b' : SecBuf) (h : secObs b = secObs b') (x : BitVec 32) : getString b x = getString b' x := by
+  simp only [secObs, SecObs.mk.injEq] at h
+  unfold getString
+  rw [h.2.2.2.2.2.2.2.2.2.2.2.2.1, h.2.2.2.2.2.2.2.1]
+
+/-! #### pairwise-related lists -/
+
+inductive Forall2 {α β} (R : α → β → Prop) : List α → List β → Prop
+  | nil : Forall2 R [] []
+  | cons {a b l m} : R a b → Forall2 R l m → Forall2 R (a :: l) (b :: m)
+
+theorem forall2_append {α β} {R : α → β → Prop} {l1 l2 : List α} {m1 m2 : List β}
+    (h1 : Forall2 R l1 m1) (h2 : Forall2 R l2 m2) : Forall2 R (l1 ++ l2) (m1 ++ m2) := by
+  induction h1 with
+  | nil => exact h2
+  | cons h _ ih => exact Forall2.cons h ih
+
+theorem forall2_reverse {α β} {R : α → β → Prop} {l : List α} {m : List β}
+    (h : Forall2 R l m) : Forall2 R l.reverse m.reverse := by
+  induction h with
+  | nil => exact Forall2.nil
+  | cons h _ ih =>
+    simp only [List.reverse_cons]
+    exact forall2_append ih (Forall2.cons h Forall2.nil)
+
+theorem forall2_length {α β} {R : α → β → Prop} {l : List α} {m : List β}
+    (h : Forall2 R l m) : l.length = m.length := by
+  induction h with
+  | nil => rfl
+  | cons _ _ ih => simp [ih]
+
+theorem forall2_get {α β} {R : α → β → Prop} {l : List α} {m : List β}
+    (h : Forall2 R l m) : ∀ i (h1 : i < l.length) (h2 : i < m.length), R l[i] m[i] := by
+  induction h with
+  | nil => intro i h1; exact absurd h1 (by simp)
+  | cons h _ ih =>
+    intro i h1 h2
+    cases i with
+    | zero => exact h
+    | succ i => exact ih i (by simpa using h1) (by simpa using h2)
+
+theorem forall2_set {α β} {R : α → β → Prop} {l : List α} {m : List β}
+    (h : Forall2 R l m) (i : Nat) (x : α) (y : β) (hxy : R x y) : Forall2 R (l.set i x) (m.set i y) := by
+  induction h generalizing i with
+  | nil => exact Forall2.nil
+  | cons h ht ih =>
+    cases i with
+    | zero => exact Forall2.cons hxy ht
+    | succ i => exact Forall2.cons h (ih i)
+
+theorem forall2_of_get {α β} {R : α → β → Prop} : ∀ (l : List α) (m : List β), l.length = m.length →
+    (∀ i (h1 : i < l.length) (h2 : i < m.length), R l[i] m[i]) → Forall2 R l m
+  | [], [], _, _ => Forall2.nil
+  | [], _ :: _, h, _ => by simp at h
+  | _ :: _, [], h, _ => by simp at h
+  | a :: l, b :: m, hl, h =>
+    Forall2.cons (h 0 (by simp) (by simp))
+      (forall2_of_get l m (by simpa using hl)
+        (fun i h1 h2 => h (i + 1) (by simpa using h1) (by simpa using h2)))
+
+/-! #### the section loop, lazy run against eager run -/
+
+theorem hdrRead_fail_mono (tr : List Trans) (s : IStream) (off : Int) (n : Nat) (h : s.fail = true) :
+    (hdrRead_ls tr s off n).1.fail = true := by
+  cases s with
+  | mk d p e f g k =>
+    simp only at h; subst h
+    unfold hdrRead_ls streamSizeOf
+    cases tr <;> simp [IStream.seekEnd, IStream.tellg, IStream.good, IStream.seekg, IStream.read]
+
+theorem secGetData_fail_mono (c : Cls) (tr : List Trans) (ls : LoadSt) (b : SecBuf) (h : ls.st.fail = true) :
+    (secGetData c tr ls b).1.st.fail = true := by
+  rw [secGetData_st]; split
+  · exact isolatedRead_fail_of_fail _ _ _ h
+  · exact h
+
+theorem secLoad_fail_mono (c : Cls) (enc : Enc) (tr : List Trans) (ls : LoadSt) (off : Int) (isLazy : Bool)
+    (idx : Nat) (h : ls.st.fail = true) : (secLoad c enc tr ls off isLazy idx).1.st.fail = true := by
+  have hh := hdrRead_fail_mono tr ls.st off (shdrSize c) h
+  rw [secLoad_eq_ls]; simp only []
+  split
+  · exact hh
+  · cases isLazy
+    · simp only [Bool.false_eq_true, if_false]; exact secGetData_fail_mono _ _ _ _ hh
+    · exact hh
+
+theorem secLoad_over (c : Cls) (enc : Enc) (tr : List Trans) (ls : LoadSt) (off : Int) (isLazy : Bool) (idx : Nat) :
+    (secLoad c enc tr ls off isLazy idx).1.st.data = ls.st.data ∧
+    (secLoad c enc tr ls off isLazy idx).1.st.kind = ls.st.kind := by
+  rw [secLoad_eq_ls]; simp only []
+  split
+  · simp
+  · cases isLazy <;> simp
+
+/-- `stream_size` recorded in a section is the real length unless the stream is (and stays) failed -/
+def SsOk (len : Nat) (ls : LoadSt) (b : SecBuf) : Prop := ls.st.fail = false → b.streamSize = BitVec.ofNat 64 len
+
+theorem secLoad_ssOk (c : Cls) (enc : Enc) (ls : LoadSt) (off : Int) (idx : Nat) :
+    SsOk ls.st.data.length (secLoad c enc [] ls off true idx).1 (secLoad c enc [] ls off true idx).2 := by
+  rw [secLoad_eq_ls]; simp only [if_true]
+  intro hf
+  split at hf <;> split
+  · simp only [secInit]; exact hdrRead_ss ls.st off (shdrSize c) hf
+  · rename_i a b; exact absurd a b
+  · rename_i a b; exact absurd b a
+  · simp only [decodeShdr_streamSize_ls, secInit]; exact hdrRead_ss ls.st off (shdrSize c) hf
+
+theorem loadSectionsLoop_sim (c : Cls) (enc : Enc) (D : Bytes) (K : StreamKind)
+    (h63 : D.length < 9223372036854775808) (shoff : Int) (entsize : Nat) :
+    ∀ (n i : Nat) (lsL lsE : LoadSt) (accL accE : List SecBuf),
+      FlagEq lsL.st lsE.st → Over D K lsE →
+      Forall2 (SecPair c D K) accL accE → (∀ b, b ∈ accL → SsOk D.length lsL b) →
+      Forall2 (SecPair c D K) (loadSectionsLoop c enc [] true shoff entsize n i lsL accL).2
+        (loadSectionsLoop c enc [] false shoff entsize n i lsE accE).2 ∧
+      FlagEq (loadSectionsLoop c enc [] true shoff entsize n i lsL accL).1.st
+        (loadSectionsLoop c enc [] false shoff entsize n i lsE accE).1.st ∧
+      Over D K (loadSectionsLoop c enc [] false shoff entsize n i lsE accE).1 ∧
+      (∀ b, b ∈ (loadSectionsLoop c enc [] true shoff entsize n i lsL accL).2 →
+        SsOk D.length (loadSectionsLoop c enc [] true shoff entsize n i lsL accL).1 b) := by
+  intro n
+  induction n with
+  | zero =>
+    intro i lsL lsE accL accE hF hO hA hS
+    simp only [loadSectionsLoop]
+    exact ⟨forall2_reverse hA, hF, hO, fun b hb => hS b (by simpa using hb)⟩
+  | succ n ih =>
+    intro i lsL lsE accL accE hF hO hA hS
+    simp only [loadSectionsLoop]
+    have hp := secPair_of_load c enc D K lsL lsE hF hO (shoff + Int.ofNat i * Int.ofNat entsize) i
+    have hf' := secLoad_st_flagEq c enc lsL lsE hF (by rw [hO.1]; exact h63) (shoff + Int.ofNat i * Int.ofNat entsize) i
+    have ho' := secLoad_over c enc [] lsE (shoff + Int.ofNat i * Int.ofNat entsize) false i
+    have hdL : lsL.st.data = D := by rw [hF.1, hO.1]
+    apply ih (i + 1) _ _ _ _ hf' ⟨by rw [ho'.1, hO.1], by rw [ho'.2, hO.2]⟩ (Forall2.cons hp hA)
+    intro b hb
+    simp only [List.mem_cons] at hb
+    rcases hb with hb | hb
+    · rw [hb]
+      have := secLoad_ssOk c enc lsL (shoff + Int.ofNat i * Int.ofNat entsize) i
+      rw [hdL] at this; exact this
+    · intro hf
+      apply hS b hb
+      cases hq : lsL.st.fail
+      · rfl
+      · rw [secLoad_fail_mono c enc [] lsL _ true i hq] at hf; exact absurd hf (by simp)
+
+/-! #### the names step -/
+
+theorem getApply_streamSize (b : SecBuf) (o : SecOutcome) : (secGetApply b o).streamSize = b.streamSize := by
+  rcases o with _ | _ | d | _ | (_ | _) <;> simp [secGetApply, SecOutcome.apply]
+
+theorem SecPair.streamSize {c : Cls} {D : Bytes} {K : StreamKind} {bl be : SecBuf} (h : SecPair c D K bl be) :
+    bl.streamSize = be.streamSize := by
+  obtain ⟨b0, hf, hinv, hobs, hst⟩ := h
+  have h1 : bl.streamSize = b0.streamSize := by
+    rcases hinv with h | ⟨ds, h, _⟩
+    · rw [h, getApply_streamSize]
+    · rw [h]
+  have h2 : (secGetApply b0 (outcomeOf c [] D K b0)).streamSize = be.streamSize := by
+    simp only [secObs, SecObs.mk.injEq] at hobs
+    exact hobs.2.2.2.2.2.2.2.2.2.2.2.2.2.2
+  rw [h1, ← getApply_streamSize b0 (outcomeOf c [] D K b0), h2]
+
+theorem resolveNames_sim (c : Cls) (D : Bytes) (K : StreamKind) (sL sE : SecBuf)
+    (hs : ∀ x, getString sL x = getString sE x) :
+    ∀ (l m : List SecBuf), Forall2 (SecPair c D K) l m → ∀ r, resolveNames sE m = .ok r →
+      ∃ r', resolveNames sL l = .ok r' ∧ Forall2 (SecPair c D K) r' r := by
+  intro l m h
+  induction h with
+  | nil => intro r hr; simp only [resolveNames] at hr; exact ⟨[], rfl, by cases hr; exact Forall2.nil⟩
+  | @cons a b l m hab _ ih =>
+    intro r hr
+    have hn : a.nameOff = b.nameOff := by
+      have := hab.fields
+      simp only [hdrFields, Prod.mk.injEq] at this
+      exact this.2.2.1
+    have hga : getString sL a.nameOff = getString sE b.nameOff := by rw [hs, hn]
+    simp only [resolveNames, bind, Except.bind] at hr ⊢
+    rw [hga]
+    cases hg : getString sE b.nameOff with
+    | error f => rw [hg] at hr; exact absurd hr (by simp)
+    | ok x =>
+      rw [hg] at hr
+      simp only at hr ⊢
+      cases hrest : resolveNames sE m with
+      | error f => rw [hrest] at hr; exact absurd hr (by simp)
+      | ok rest =>
+        rw [hrest] at hr
+        obtain ⟨rest', h1, h2⟩ := ih rest hrest
+        rw [h1]
+        simp only [pure, Except.pure, Except.ok.injEq] at hr ⊢
+        refine ⟨_, rfl, ?_⟩
+        rw [← hr]
+        apply Forall2.cons _ h2
+        cases x with
+        | none => exact hab
+        | some s => exact hab.name s
+
+theorem loadNames_sim (c : Cls) (enc : Enc) (hdr : Bytes) (D : Bytes) (K : StreamKind)
+    (h63 : D.length < 9223372036854775808) (lsL lsE : LoadSt) (secsL secsE : List SecBuf)
+    (hF : FlagEq lsL.st lsE.st) (hO : Over D K lsE) (hP : Forall2 (SecPair c D K) secsL secsE)
+    (hS : ∀ b, b ∈ secsL → SsOk D.length lsL b) :
+    ∀ rE, loadNames c enc [] hdr lsE secsE = .ok rE →
+      ∃ rL, loadNames c enc [] hdr lsL secsL = .ok rL ∧ Forall2 (SecPair c D K) rL.2 rE.2 ∧
+        FlagEq rL.1.st rE.1.st ∧ Over D K rE.1 := by
+  intro rE hE
+  have hOL : Over D K lsL := ⟨by rw [hF.1, hO.1], by rw [hF.2.1, hO.2]⟩
+  unfold loadNames at hE ⊢
+  split at hE
+  · rename_i hb; simp only [hb, if_true]
+    cases hE; exact ⟨_, rfl, hP, hF, hO⟩
+  · rename_i hb; simp only [hb, Bool.false_eq_true, if_false]
+    split at hE
+    · rename_i hu; simp only [hu, if_true]
+      cases hE; exact ⟨_, rfl, hP, hF, hO⟩
+    · rename_i hu; simp only [hu, Bool.false_eq_true, if_false]
+      have hlen := forall2_length hP
+      by_cases hlt : (Hdr.e_shstrndx c enc hdr).toNat < secsE.length
+      · have hltL : (Hdr.e_shstrndx c enc hdr).toNat < secsL.length := by rw [hlen]; exact hlt
+        rw [List.getElem?_eq_getElem hlt] at hE
+        rw [List.getElem?_eq_getElem hltL]
+        simp only at hE ⊢
+        have hpair := forall2_get hP _ hltL hlt
+        obtain ⟨hp', hobs⟩ := hpair.get lsL lsE hOL hO
+        have hs := fun x => getString_obs _ _ hobs x
+        have hset := forall2_set hP (Hdr.e_shstrndx c enc hdr).toNat _ _ hp'
+        simp only [bind, Except.bind] at hE ⊢
+        cases hr : resolveNames (secGetData c [] lsE secsE[(Hdr.e_shstrndx c enc hdr).toNat]).2
+            (secsE.set (Hdr.e_shstrndx c enc hdr).toNat
+              (secGetData c [] lsE secsE[(Hdr.e_shstrndx c enc hdr).toNat]).2) with
+        | error f => rw [hr] at hE; exact absurd hE (by simp)
+        | ok r =>
+          rw [hr] at hE
+          obtain ⟨r', h1, h2⟩ := resolveNames_sim c D K _ _ hs _ _ hset r hr
+          rw [h1]
+          simp only [pure, Except.pure, Except.ok.injEq] at hE ⊢
+          refine ⟨_, rfl, ?_⟩
+          rw [← hE]
+          refine ⟨h2, ⟨by simp [hF.1], by simp [hF.2.1], ?_⟩, ⟨by simp [hO.1], by simp [hO.2]⟩⟩
+          have hmem : secsL[(Hdr.e_shstrndx c enc hdr).toNat] ∈ secsL := List.getElem_mem hltL
+          have hssL := hS _ hmem
+          rw [secGetData_fail_preserved c lsL _ (by rw [hOL.1]; exact h63) (by rw [hOL.1]; exact hssL)]
+          rw [secGetData_fail_preserved c lsE _ (by rw [hO.1]; exact h63)
+            (by rw [hO.1, ← hpair.streamSize, ← hF.2.2]; exact hssL)]
+          exact hF.2.2
+      · have hnE : secsE[(Hdr.e_shstrndx c enc hdr).toNat]? = none := List.getElem?_eq_none (by omega)
+        have hnL : secsL[(Hdr.e_shstrndx c enc hdr).toNat]? = none := List.getElem?_eq_none (by omega)
+        rw [hnE] at hE; rw [hnL]
+        cases hE; exact ⟨_, rfl, hP, hF, hO⟩
+
+/-! #### segments, lazy run against eager run -/
+
+theorem segLoad_snd_flagEq (c : Cls) (enc : Enc) (tr : List Trans) (ls ls' : LoadSt)
+    (h : FlagEq ls.st ls'.st) (off : Int) (isLazy : Bool) :
+    (segLoad c enc tr ls off isLazy).2 = (segLoad c enc tr ls' off isLazy).2 := by
+  obtain ⟨h1, h2, h3⟩ := hdrRead_flagEq tr ls.st ls'.st h off (phdrSize c)
+  rw [segLoad_eq_ls, segLoad_eq_ls]
+  simp only []
+  have e1 : (hdrRead_ls tr ls.st off (phdrSize c)).2.1 = (hdrRead_ls tr ls'.st off (phdrSize c)).2.1 := by rw [h1]
+  have e2 : (hdrRead_ls tr ls.st off (phdrSize c)).2.2 = (hdrRead_ls tr ls'.st off (phdrSize c)).2.2 := by rw [h1]
+  rw [e1, e2]
+  cases isLazy
+  · simp only [Bool.false_eq_true, if_false]
+    rw [segLoadData_snd, segLoadData_snd]
+    simp only []
+    rw [segOutcome_indep c tr _ _ h3.1 h3.2.1]
+  · rfl
+
+theorem seg_read_fail (ls : LoadSt) (g : Seg) (h63 : ls.st.data.length < 9223372036854775808)
+    (hss : ls.st.fail = false → g.streamSize = BitVec.ofNat 64 ls.st.data.length)
+    (g1 : ¬ BitVec.ult g.streamSize g.offset = true)
+    (g2 : ¬ (BitVec.ult g.streamSize g.filesz || BitVec.ult (g.streamSize - g.offset) g.filesz) = true) :
+    (mergeFlags_ls ls.st (segReadSt ls.st g.offset g.filesz).1).fail = ls.st.fail := by
+  have hm : ∀ (r : IStream), (mergeFlags_ls ls.st r).fail = (r.fail || ls.st.fail) := fun r => rfl
+  cases hf : ls.st.fail
+  · have hs := hss hf
+    rw [hs] at g1 g2
+    have ho := g.offset.isLt; have hz := g.filesz.isLt
+    have hin : g.offset.toNat + g.filesz.toNat ≤ ls.st.data.length := by
+      simp only [BitVec.ult, BitVec.toNat_sub, BitVec.toNat_ofNat, Nat.reducePow,
+        Bool.or_eq_true, decide_eq_true_eq, not_or, Nat.not_lt] at g1 g2
+      omega
+    rw [segReadSt_inside ls.st g.offset g.filesz hin h63]
+    simp [mergeFlags_ls, IStream.clear, hf]
+  · simp [hm, hf]
+
+theorem segLoadData_fail_preserved (c : Cls) (ls : LoadSt) (g : Seg)
+    (h63 : ls.st.data.length < 9223372036854775808)
+    (hss : ls.st.fail = false → g.streamSize = BitVec.ofNat 64 ls.st.data.length) :
+    (segLoadData c [] ls g).1.st.fail = ls.st.fail := by
+  rw [segLoadData_eq_ls]
+  simp only [secOff_nil]
+  cases c <;> simp only [] <;>
+   (split
+    · rfl
+    · split
+      · rfl
+      · split
+        · rfl
+        · split
+          · rfl
+          · rename_i g1 g2 g3
+            split <;> exact seg_read_fail ls g h63 hss g1 g2)
+
+theorem segLoad_st_flagEq (c : Cls) (enc : Enc) (lsL lsE : LoadSt) (h : FlagEq lsL.st lsE.st)
+    (h63 : lsE.st.data.length < 9223372036854775808) (off : Int) :
+    FlagEq (segLoad c enc [] lsL off true).1.st (segLoad c enc [] lsE off false).1.st := by
+  obtain ⟨h1, h2, h3⟩ := hdrRead_flagEq [] lsL.st lsE.st h off (phdrSize c)
+  rw [segLoad_eq_ls, segLoad_eq_ls]
+  simp only [if_true, Bool.false_eq_true, if_false]
+  refine ⟨by simp [h.1], by simp [h.2.1], ?_⟩
+  rw [segLoadData_fail_preserved c _ _ (by simpa using h63)
+    (by intro hf; simp only [decodePhdr_streamSize_ls, segInit_ls]; simpa using hdrRead_ss lsE.st off (phdrSize c) hf)]
+  exact h3.2.2
+
+def StableS (c : Cls) (D : Bytes) (K : StreamKind) (ge : Seg) : Prop :=
+  ∀ ls, Over D K ls → segObs (segGetData c [] ls ge).2 = segObs ge
+
+def SegPair (c : Cls) (D : Bytes) (K : StreamKind) (gl ge : Seg) : Prop :=
+  ∃ g0, SegFresh g0 ∧ (gl = g0 ∨ gl = (segApply g0 (segOutcomeOf c [] D K g0)).1) ∧
+    segObs (segApply g0 (segOutcomeOf c [] D K g0)).1 = segObs ge ∧ StableS c D K ge
+
+theorem SegPair.obs {c : Cls} {D : Bytes} {K : StreamKind} {gl ge : Seg} (h : SegPair c D K gl ge)
+    (ops : List DataOp) (ls1 ls2 : LoadSt) (h1 : Over D K ls1) (h2 : Over D K ls2) :
+    segObs (segGetData c [] (runSegOps c [] ls1 gl ops).1 (runSegOps c [] ls1 gl ops).2).2 =
+      segObs (segGetData c [] ls2 ge).2 := by
+  obtain ⟨g0, hf, hinv, hobs, hst⟩ := h
+  obtain ⟨g1, g2, g3⟩ := runSegOps_inv c [] D K g0 hf ops ls1 gl h1.1 h1.2 hinv
+  rw [← g1, ← g2] at g3
+  rw [seg_request_inv c [] _ g0 _ hf g3, g1, g2, hobs, hst ls2 h2]
+
+theorem segGetData_snd (c : Cls) (tr : List Trans) (ls : LoadSt) (g : Seg) :
+    (segGetData c tr ls g).2 =
+      if !g.isLoaded then (segApply g (segOutcome c tr ls.st g.stype g.filesz g.offset g.streamSize)).1 else g := by
+  rw [segGetData_eq_ls]; split
+  · rw [segLoadData_snd]
+  · rfl
+
+theorem segOutcome_over (c : Cls) (D : Bytes) (K : StreamKind) (s : IStream) (hd : s.data = D) (hk : s.kind = K)
+    (g : Seg) : segOutcome c [] s g.stype g.filesz g.offset g.streamSize = segOutcomeOf c [] D K g :=
+  segOutcome_indep c [] s { data := D, kind := K } hd hk _ _ _ _
+
+theorem stableS_apply (c : Cls) (D : Bytes) (K : StreamKind) (g : Seg) (hl : g.isLoaded = false) :
+    StableS c D K (segApply g (segOutcomeOf c [] D K g)).1 := by
+  intro ls' hO'
+  rw [segGetData_snd]
+  have ho := segOutcome_over c D K ls'.st hO'.1 hO'.2
+  cases hq : segOutcomeOf c [] D K g with
+  | none =>
+    simp only [segApply, hl, Bool.not_false, if_true]
+    rw [ho g, hq]
+  | some x =>
+    cases x with
+    | none =>
+      simp only [segApply, hl, Bool.not_false, if_true]
+      have := ho { g with data := none }
+      simp only [] at this
+      rw [this]
+      have e : segOutcomeOf c [] D K { g with data := none } = segOutcomeOf c [] D K g := rfl
+      rw [e, hq]
+    | some d => simp [segApply]
+
+theorem eager_stableS (c : Cls) (enc : Enc) (D : Bytes) (K : StreamKind) (ls : LoadSt) (hO : Over D K ls)
+    (off : Int) : StableS c D K (segLoad c enc [] ls off false).2.1 := by
+  rw [segLoad_eq_ls]
+  simp only [Bool.false_eq_true, if_false]
+  rw [segLoadData_snd]
+  simp only []
+  rw [segOutcome_over c D K _ (by simp [hO.1]) (by simp [hO.2])]
+  apply stableS_apply
+  simp [segInit_ls]
+
+theorem segPair_of_load (c : Cls) (enc : Enc) (D : Bytes) (K : StreamKind) (lsL lsE : LoadSt)
+    (h : FlagEq lsL.st lsE.st) (hE : Over D K lsE) (off : Int) :
+    SegPair c D K (segLoad c enc [] lsL off true).2.1 (segLoad c enc [] lsE off false).2.1 := by
+  rw [segLoad_snd_flagEq c enc [] lsL lsE h off true]
+  have hf := segLoad_lazy_fresh c enc [] lsE off
+  have hr := seg_request_inv c [] lsE _ _ hf (Or.inl rfl)
+  have he := segGetData_lazy_eq_eager c enc [] lsE lsE off rfl rfl
+  rw [hr, hE.1, hE.2] at he
+  exact ⟨_, hf, Or.inl rfl, he, eager_stableS c enc D K lsE hE off⟩
+
+theorem segApply_upd (g : Seg) (o : Option (Option Bytes)) (i : Nat) (m : List (BitVec 16)) :
+    (segApply { g with index := i, secs := m } o).1 = { (segApply g o).1 with index := i, secs := m } := by
+  rcases o with _ | _ | d <;> rfl
+
+/-- recording index and members (the same on both sides) keeps a pair a pair -/
+theorem SegPair.upd {c : Cls} {D : Bytes} {K : StreamKind} {gl ge : Seg} (h : SegPair c D K gl ge)
+    (i : Nat) (m : List (BitVec 16)) :
+    SegPair c D K { gl with index := i, secs := m } { ge with index := i, secs := m } := by
+  obtain ⟨g0, hf, hinv, hobs, hst⟩ := h
+  have ho : ∀ g : Seg, segOutcomeOf c [] D K { g with index := i, secs := m } = segOutcomeOf c [] D K g := fun _ => rfl
+  have hap := segApply_upd g0 (segOutcomeOf c [] D K g0) i m
+  refine ⟨{ g0 with index := i, secs := m }, hf, ?_, ?_, ?_⟩
+  · rw [ho]
+    rcases hinv with h | h
+    · left; rw [h]
+    · right; rw [h]; exact hap.symm
+  · rw [ho, hap]
+    show ({ segObs (segApply g0 (segOutcomeOf c [] D K g0)).1 with index := i, secs := m } : SegObs) =
+      { segObs ge with index := i, secs := m }
+    rw [hobs]
+  · intro ls hls
+    have h1 := hst ls hls
+    rw [segGetData_snd] at h1 ⊢
+    simp only []
+    have e : segOutcome c [] ls.st ge.stype ge.filesz ge.offset ge.streamSize = segOutcome c [] ls.st ge.stype ge.filesz ge.offset ge.streamSize := rfl
+    split
+    · rename_i hl
+      simp only [hl, if_true] at h1
+      have := segApply_upd ge (segOutcome c [] ls.st ge.stype ge.filesz ge.offset ge.streamSize) i m
+      rw [this]
+      show ({ segObs (segApply ge _).1 with index := i, secs := m } : SegObs) = { segObs ge with index := i, secs := m }
+      rw [h1]
+    · rfl
+
+theorem memberOf_congr (g g' : Seg) (b b' : SecBuf)
+    (hg : (g.stype, g.offset, g.filesz, g.vaddr, g.memsz) = (g'.stype, g'.offset, g'.filesz, g'.vaddr, g'.memsz))
+    (hb : (b.flags, b.addr, b.size, b.offset) = (b'.flags, b'.addr, b'.size, b'.offset)) :
+    memberOf g b = memberOf g' b' := by
+  simp only [Prod.mk.injEq] at hg hb
+  unfold memberOf
+  rw [hg.1, hg.2.1, hg.2.2.1, hg.2.2.2.1, hg.2.2.2.2, hb.1, hb.2.1, hb.2.2.1, hb.2.2.2]
+
+theorem segApply_hdr (g : Seg) (o : Option (Option Bytes)) :
+    ((segApply g o).1.stype, (segApply g o).1.offset, (segApply g o).1.filesz, (segApply g o).1.vaddr,
+      (segApply g o).1.memsz) = (g.stype, g.offset, g.filesz, g.vaddr, g.memsz) := by
+  rcases o with _ | _ | d <;> rfl
+
+theorem SegPair.hdr {c : Cls} {D : Bytes} {K : StreamKind} {gl ge : Seg} (h : SegPair c D K gl ge) :
+    (gl.stype, gl.offset, gl.filesz, gl.vaddr, gl.memsz) = (ge.stype, ge.offset, ge.filesz, ge.vaddr, ge.memsz) := by
+  obtain ⟨g0, hf, hinv, hobs, hst⟩ := h
+  have h1 : (gl.stype, gl.offset, gl.filesz, gl.vaddr, gl.memsz) = (g0.stype, g0.offset, g0.filesz, g0.vaddr, g0.memsz) := by
+    rcases hinv with h | h
+    · rw [h]
+    · rw [h]; exact segApply_hdr _ _
+  rw [h1, ← segApply_hdr g0 (segOutcomeOf c [] D K g0)]
+  simp only [segObs, SegObs.mk.injEq] at hobs
+  simp only [Prod.mk.injEq]
+  exact ⟨hobs.2.1, hobs.2.2.2.1, hobs.2.2.2.2.2.2.1, hobs.2.2.2.2.1, hobs.2.2.2.2.2.2.2.1⟩
+
+theorem members_sim (c : Cls) (D : Bytes) (K : StreamKind) (gl ge : Seg)
+    (hg : (gl.stype, gl.offset, gl.filesz, gl.vaddr, gl.memsz) = (ge.stype, ge.offset, ge.filesz, ge.vaddr, ge.memsz)) :
+    ∀ (l m : List SecBuf), Forall2 (SecPair c D K) l m →
+      (l.filter (memberOf gl)).map (fun b => BitVec.ofNat 16 b.index) =
+      (m.filter (memberOf ge)).map (fun b => BitVec.ofNat 16 b.index) := by
+  intro l m h
+  induction h with
+  | nil => rfl
+  | @cons a b l m hab _ ih =>
+    have hf := hab.fields
+    simp only [hdrFields, Prod.mk.injEq] at hf
+    have hm : memberOf gl a = memberOf ge b :=
+      memberOf_congr gl ge a b hg (by simp only [Prod.mk.injEq]; exact ⟨hf.2.2.2.2.1, hf.2.2.2.2.2.1, hf.2.2.2.2.2.2.2.1, hf.2.2.2.2.2.2.1⟩)
+    simp only [List.filter_cons, hm]
+    split
+    · simp only [List.map_cons, ih, hf.1]
+    · exact ih
+
+theorem segLoad_over (c : Cls) (enc : Enc) (tr : List Trans) (ls : LoadSt) (off : Int) (isLazy : Bool) :
+    (segLoad c enc tr ls off isLazy).1.st.data = ls.st.data ∧
+    (segLoad c enc tr ls off isLazy).1.st.kind = ls.st.kind := by
+  rw [segLoad_eq_ls]; simp only []
+  cases isLazy <;> simp
+
+theorem segLoad_lazy_ok (c : Cls) (enc : Enc) (tr : List Trans) (ls : LoadSt) (off : Int) :
+    (segLoad c enc tr ls off true).2.2 = true := by
+  rw [segLoad_eq_ls]; rfl
+
+theorem loadSegmentsLoop_sim (c : Cls) (enc : Enc) (D : Bytes) (K : StreamKind)
+    (h63 : D.length < 9223372036854775808) (phoff : Int) (entsize : Nat) (secsL secsE : List SecBuf)
+    (hsec : Forall2 (SecPair c D K) secsL secsE) :
+    ∀ (n i : Nat) (lsL lsE : LoadSt) (accL accE : List Seg),
+      FlagEq lsL.st lsE.st → Over D K lsE → Forall2 (SegPair c D K) accL accE →
+      (loadSegmentsLoop c enc [] false phoff entsize secsE n i lsE accE).2.2 = true →
+      (loadSegmentsLoop c enc [] true phoff entsize secsL n i lsL accL).2.2 = true ∧
+      Forall2 (SegPair c D K) (loadSegmentsLoop c enc [] true phoff entsize secsL n i lsL accL).2.1
+        (loadSegmentsLoop c enc [] false phoff entsize secsE n i lsE accE).2.1 := by
+  intro n
+  induction n with
+  | zero =>
+    intro i lsL lsE accL accE hF hO hA _
+    simp only [loadSegmentsLoop]
+    exact ⟨by simp, forall2_reverse hA⟩
+  | succ n ih =>
+    intro i lsL lsE accL accE hF hO hA hok
+    have hp := segPair_of_load c enc D K lsL lsE hF hO (phoff + Int.ofNat i * Int.ofNat entsize)
+    have hf' := segLoad_st_flagEq c enc lsL lsE hF (by rw [hO.1]; exact h63) (phoff + Int.ofNat i * Int.ofNat entsize)
+    have ho' := segLoad_over c enc [] lsE (phoff + Int.ofNat i * Int.ofNat entsize) false
+    have hlok := segLoad_lazy_ok c enc [] lsL (phoff + Int.ofNat i * Int.ofNat entsize)
+    simp only [loadSegmentsLoop] at hok ⊢
+    generalize segLoad c enc [] lsE (phoff + Int.ofNat i * Int.ofNat entsize) false = xE at *
+    generalize segLoad c enc [] lsL (phoff + Int.ofNat i * Int.ofNat entsize) true = xL at *
+    obtain ⟨lsE', gE, okE⟩ := xE
+    obtain ⟨lsL', gL, okL⟩ := xL
+    simp only at hp hf' ho' hlok hok ⊢
+    subst hlok
+    by_cases hcond : (!okE || lsE'.st.fail) = true
+    · simp only [hcond, if_true] at hok
+      exact absurd hok (by simp)
+    · simp only [hcond, Bool.false_eq_true, if_false] at hok ⊢
+      simp only [Bool.or_eq_true, Bool.not_eq_true', not_or, Bool.not_eq_false, Bool.not_eq_true] at hcond
+      have hfl : lsL'.st.fail = false := by rw [hf'.2.2]; exact hcond.2
+      simp only [hfl, Bool.not_true, Bool.or_self, Bool.false_eq_true, if_false]
+      have hm := members_sim c D K gL gE hp.hdr secsL secsE hsec
+      rw [hm]
+      exact ih (i + 1) lsL' lsE' _ _ hf' ⟨by rw [ho'.1, hO.1], by rw [ho'.2, hO.2]⟩
+        (Forall2.cons (hp.upd i _) hA) hok
+
+/-! #### assembly -/
+
+theorem loadSections_sim (c : Cls) (enc : Enc) (hdr : Bytes) (st : IStream)
+    (h63 : st.data.length < 9223372036854775808) :
+    Forall2 (SecPair c st.data st.kind) (loadSections c enc [] true hdr st).2 (loadSections c enc [] false hdr st).2 ∧
+    FlagEq (loadSections c enc [] true hdr st).1.st (loadSections c enc [] false hdr st).1.st ∧
+    Over st.data st.kind (loadSections c enc [] false hdr st).1 ∧
+    (∀ b, b ∈ (loadSections c enc [] true hdr st).2 →
+      SsOk st.data.length (loadSections c enc [] true hdr st).1 b) := by
+  unfold loadSections
+  split
+  · exact ⟨Forall2.nil, FlagEq.refl _, ⟨rfl, rfl⟩, fun b hb => absurd hb (by simp)⟩
+  · exact loadSectionsLoop_sim c enc st.data st.kind h63 _ _ _ 0 { st := st } { st := st } [] []
+      (FlagEq.refl _) ⟨rfl, rfl⟩ Forall2.nil (fun b hb => absurd hb (by simp))
+
+/-- everything after the gate: if the eager run succeeds, the lazy run succeeds with pairwise
+    equivalent sections and segments -/
+theorem loadBody_sim (o : Obj) (c : Cls) (enc : Enc) (hdr : Bytes) (st : IStream) (htr : o.trans = [])
+    (h63 : st.data.length < 9223372036854775808) (re : LoadRes)
+    (he : loadBody o c enc hdr st false = .ok re) (hok : re.ok = true) :
+    ∃ rl, loadBody o c enc hdr st true = .ok rl ∧ rl.ok = true ∧
+      rl.obj.cls = re.obj.cls ∧ rl.obj.enc = re.obj.enc ∧ rl.obj.hdr = re.obj.hdr ∧
+      Forall2 (SecPair c st.data st.kind) rl.obj.secs re.obj.secs ∧
+      Forall2 (SegPair c st.data st.kind) rl.obj.segs re.obj.segs := by
+  obtain ⟨s1, s2, s3, s4⟩ := loadSections_sim c enc hdr st h63
+  unfold loadBody at he ⊢
+  rw [htr] at he ⊢
+  simp only [bind, Except.bind] at he ⊢
+  cases hn : loadNames c enc [] hdr (loadSections c enc [] false hdr st).1 (loadSections c enc [] false hdr st).2 with
+  | error f => rw [hn] at he; exact absurd he (by simp)
+  | ok pE =>
+    rw [hn] at he
+    obtain ⟨pL, n1, n2, n3, n4⟩ := loadNames_sim c enc hdr st.data st.kind h63 _ _ _ _ s2 s3 s1 s4 pE hn
+    rw [n1]
+    simp only [pure, Except.pure, Except.ok.injEq] at he ⊢
+    refine ⟨_, rfl, ?_⟩
+    subst he
+    unfold loadSegs at hok ⊢
+    split at hok
+    · exact absurd hok (by simp)
+    · rename_i hb
+      simp only [hb, Bool.false_eq_true, if_false] at hok ⊢
+      rw [htr] at hok ⊢
+      obtain ⟨g1, g2⟩ := loadSegmentsLoop_sim c enc st.data st.kind h63 _ _ pL.2 pE.2 n2 _ 0 pL.1 pE.1 [] []
+        n3 n4 Forall2.nil hok
+      refine ⟨g1, ?_, ?_, ?_, n2, g2⟩ <;> first | trivial | rfl
+
+theorem loadBody_cls (o : Obj) (c : Cls) (enc : Enc) (hdr : Bytes) (st : IStream) (isLazy : Bool) (r : LoadRes)
+    (h : loadBody o c enc hdr st isLazy = .ok r) : r.obj.cls = o.cls := by
+  unfold loadBody at h
+  simp only [bind, Except.bind] at h
+  split at h
+  · exact absurd h (by simp)
+  · simp only [pure, Except.pure, Except.ok.injEq] at h
+    rw [← h]
+    unfold loadSegs
+    split <;> rfl
+
+/-- **lazy = eager, every image** (no address translation, image shorter than 2^63 bytes) : if the
+    eager `load` succeeds, the lazy `load` succeeds, with the same header, and every section and
+    segment pairwise equivalent (`SecPair` / `SegPair`: see `lazy_eq_eager_obs`).
+    The hypothesis `re.ok = true` excludes exactly the open finding F15
+    (`lazy_load_unreadable_segment_witness`). -/
+theorem lazy_eq_eager (o : Obj) (st : IStream) (htr : o.trans = [])
+    (h63 : st.data.length < 9223372036854775808) (re : LoadRes)
+    (he : load o st false = .ok re) (hok : re.ok = true) :
+    ∃ rl, load o st true = .ok rl ∧ rl.ok = true ∧
+      rl.obj.cls = re.obj.cls ∧ rl.obj.enc = re.obj.enc ∧ rl.obj.hdr = re.obj.hdr ∧
+      Forall2 (SecPair re.obj.cls st.data st.kind) rl.obj.secs re.obj.secs ∧
+      Forall2 (SegPair re.obj.cls st.data st.kind) rl.obj.segs re.obj.segs := by
+  rw [load_eq_ls] at he ⊢
+  simp only [] at he ⊢
+  have hfail : ∀ (o' : Obj) (s : IStream), loadFail o' s = .ok re → False := by
+    intro o' s h
+    simp only [loadFail, pure, Except.pure, Except.ok.injEq] at h
+    rw [← h] at hok; exact absurd hok (by simp)
+  split at he
+  · exact absurd he (fun h => hfail _ _ h)
+  · split at he
+    · exact absurd he (fun h => hfail _ _ h)
+    · rename_i h1 h2
+      simp only [h1, h2, Bool.false_eq_true, if_false]
+      generalize clsOfByte _ = x at he ⊢
+      generalize encOfByte _ = y at he ⊢
+      cases x with
+      | none => simp only [] at he; exact (hfail _ _ he).elim
+      | some c =>
+        cases y with
+        | none => simp only [] at he; exact (hfail _ _ he).elim
+        | some enc =>
+          simp only [] at he ⊢
+          split at he
+          · exact (hfail _ _ he).elim
+          · rename_i h3
+            simp only [h3, Bool.false_eq_true, if_false]
+            have hd : ((( st.seekg (trApply o.trans 0)).read 16).1.seekg (trApply o.trans 0) |>.read (ehdrSize c)).1.data = st.data := by simp
+            have hk : ((( st.seekg (trApply o.trans 0)).read 16).1.seekg (trApply o.trans 0) |>.read (ehdrSize c)).1.kind = st.kind := by simp
+            have hb := loadBody_sim (c := c) (enc := enc) (re := re) (he := he) (hok := hok) (htr := by exact htr)
+              (h63 := by rw [hd]; exact h63)
+            rw [hd, hk] at hb
+            have hcls : re.obj.cls = c := loadBody_cls _ c enc _ _ false re he
+            rw [hcls]
+            rw [hcls] at hb
+            exact hb
+
+/-- **C15, lazy part, in observations** : for every image (no translation, shorter than 2^63 bytes)
+    whose eager load succeeds, the lazy load succeeds and — for every section and every segment, after
+    ANY interleaving of data requests, data releases and arbitrary stream movements / error states
+    on the lazily loaded object — a data request shows exactly what the eagerly loaded object shows
+    (all header fields, name, data buffer, data size; members of segments). -/
+theorem lazy_eq_eager_obs (o : Obj) (st : IStream) (htr : o.trans = [])
+    (h63 : st.data.length < 9223372036854775808) (re : LoadRes)
+    (he : load o st false = .ok re) (hok : re.ok = true) :
+    ∃ rl, load o st true = .ok rl ∧ rl.ok = true ∧ rl.obj.cls = re.obj.cls ∧ rl.obj.enc = re.obj.enc ∧
+      rl.obj.hdr = re.obj.hdr ∧
+      rl.obj.secs.length = re.obj.secs.length ∧ rl.obj.segs.length = re.obj.segs.length ∧
+      (∀ i (h1 : i < rl.obj.secs.length) (h2 : i < re.obj.secs.length) (ops : List DataOp) (ls1 ls2 : LoadSt),
+        Over st.data st.kind ls1 → Over st.data st.kind ls2 →
+        secObs (secGetData re.obj.cls [] (runSecOps re.obj.cls [] ls1 rl.obj.secs[i] ops).1
+                  (runSecOps re.obj.cls [] ls1 rl.obj.secs[i] ops).2).2 =
+          secObs (secGetData re.obj.cls [] ls2 re.obj.secs[i]).2) ∧
+      (∀ j (h1 : j < rl.obj.segs.length) (h2 : j < re.obj.segs.length) (ops : List DataOp) (ls1 ls2 : LoadSt),
+        Over st.data st.kind ls1 → Over st.data st.kind ls2 →
+        segObs (segGetData re.obj.cls [] (runSegOps re.obj.cls [] ls1 rl.obj.segs[j] ops).1
+                  (runSegOps re.obj.cls [] ls1 rl.obj.segs[j] ops).2).2 =
+          segObs (segGetData re.obj.cls [] ls2 re.obj.segs[j]).2) := by
+  obtain ⟨rl, a1, a2, a3, a4, a5, a6, a7⟩ := lazy_eq_eager o st htr h63 re he hok
+  refine ⟨rl, a1, a2, a3, a4, a5, forall2_length a6, forall2_length a7, ?_, ?_⟩
+  · intro i h1 h2 ops ls1 ls2 o1 o2
+    exact (forall2_get a6 i h1 h2).obs ops ls1 ls2 o1 o2
+  · intro j h1 h2 ops ls1 ls2 o1 o2
+    exact (forall2_get a7 j h1 h2).obs ops ls1 ls2 o1 o2
+
+/-- non-vacuity beyond well-formed images: `.text` claims 0x1004 bytes in a 228-byte file — not
+    well-formed, yet the eager load succeeds, so `lazy_eq_eager` applies -/
+def truncImage : Bytes :=
+  [127, 69, 76, 70, 1, 1, 1, 0, 0, 0, 0, 0, 0, 0, 0, 0, 2, 0, 3, 0, 1, 0, 0, 0, 0, 16, 0, 0, 52, 0, 0, 0, 108, 0, 0, 0, 0, 0, 0, 0, 52, 0, 32, 0, 1, 0, 40, 0, 3, 0, 2, 0, 1, 0, 0, 0, 84, 0, 0, 0, 0, 16, 0, 0, 0, 16, 0, 0, 4, 0, 0, 0, 4, 0, 0, 0, 5, 0, 0, 0, 4, 0, 0, 0, 1, 2, 3, 4, 0, 46, 116, 101, 120, 116, 0, 46, 115, 104, 115, 116, 114, 116, 97, 98, 0, 0, 0, 0, 0, 0, 0, 0, 0, 0, 0, 0, 0, 0, 0, 0, 0, 0, 0, 0, 0, 0, 0, 0, 0, 0, 0, 0, 0, 0, 0, 0, 0, 0, 0, 0, 0, 0, 0, 0, 0, 0, 0, 0, 1, 0, 0, 0, 1, 0, 0, 0, 6, 0, 0, 0, 0, 16, 0, 0, 84, 0, 0, 0, 4, 16, 0, 0, 0, 0, 0, 0, 0, 0, 0, 0, 4, 0, 0, 0, 0, 0, 0, 0, 7, 0, 0, 0, 3, 0, 0, 0, 0, 0, 0, 0, 0, 0, 0, 0, 88, 0, 0, 0, 17, 0, 0, 0, 0, 0, 0, 0, 0, 0, 0, 0, 1, 0, 0, 0, 0, 0, 0, 0]
+
+example : ¬ C02.WellFormedImage truncImage ∧ loadOk (load {} { data := truncImage } false) = some true := by
+  decide +kernel
+
+/-- the statement of `lazy_eq_eager` without the `re.ok` hypothesis is false (F15) -/
+theorem lazy_eq_eager_needs_ok :
+    ¬ (∀ (o : Obj) (st : IStream) (re : LoadRes), o.trans = [] → st.data.length < 9223372036854775808 →
+        load o st false = .ok re → ∃ rl, load o st true = .ok rl ∧ rl.ok = re.ok) := by
+  intro h
+  have w := lazy_load_unreadable_segment_witness
+  cases he : load {} { data := f15Image } false with
+  | error f => rw [he] at w; exact absurd w.1 (by simp [loadOk])
+  | ok re =>
+    obtain ⟨rl, h1, h2⟩ := h {} { data := f15Image } re rfl (by decide) he
+    rw [he, h1] at w
+    simp only [loadOk, Option.some.injEq] at w
+    rw [h2, w.1] at w
+    exact absurd w.2 (by simp)
+
+/-! ### address translation: whole load -/
+
+/-- **the container represents the image through the table** : every contiguous range the loader
+    reads on the plain image (ELF header, every section-header and program-header record, every
+    file-occupying section's and every non-empty non-null segment's file range) is represented
+    (`RangeRep`: sits, translated, at a position of the container holding the same bytes;
+    `rangeRep_of_entry` derives this from a table entry that covers the range) -/
+def Represents (cont : Bytes) (tr : List Trans) (img : Bytes) : Prop :=
+  cont.length < 9223372036854775808 ∧
+  RangeRep cont tr img 0 (Spec.ehdrSize (clsOf img)) ∧
+  (∀ i, i < eh img "e_shnum" →
+    RangeRep cont tr img (shBase img i) (Spec.shdrSize (clsOf img)) ∧
+    (occupiesFile (sh img i "sh_type") = true →
+      RangeRep cont tr img (sh img i "sh_offset") (sh img i "sh_size"))) ∧
+  (∀ j, j < eh img "e_phnum" →
+    RangeRep cont tr img (phBase img j) (Spec.phdrSize (clsOf img)) ∧
+    (segHasData img j = true → RangeRep cont tr img (ph img j "p_offset") (ph img j "p_filesz")))
+
+/-- a well-formed image represents itself through the empty table -/
+theorem represents_plain (img : Bytes) (hwf : WellFormedImage img) : Represents img [] img := by
+  obtain ⟨_, _, _, hehs, h63, _, _, hS, hP, _⟩ := hwf
+  refine ⟨h63, rangeRep_nil img 0 _ (by omega), ?_, ?_⟩
+  · intro i hi
+    obtain ⟨a, b, _⟩ := hS i hi
+    exact ⟨rangeRep_nil img _ _ a, fun h => rangeRep_nil img _ _ (b h)⟩
+  · intro j hj
+    obtain ⟨a, b, _⟩ := hP j hj
+    exact ⟨rangeRep_nil img _ _ a, fun h => rangeRep_nil img _ _ (b h)⟩
+
+/-- section `i` as seen through a loader that used table `tr` on container `cont` -/
+def SectionSpecT (img : Bytes) (tr : List Trans) (cont : Bytes) (i : Nat) (b : SecBuf) : Prop :=
+  b.index = i ∧
+  b.nameOff.toNat = sh img i "sh_name" ∧ b.stype.toNat = sh img i "sh_type" ∧
+  b.flags.toNat = sh img i "sh_flags" ∧ b.addr.toNat = sh img i "sh_addr" ∧
+  b.offset.toNat = sh img i "sh_offset" ∧ b.size.toNat = sh img i "sh_size" ∧
+  b.link.toNat = sh img i "sh_link" ∧ b.info.toNat = sh img i "sh_info" ∧
+  b.addrAlign.toNat = sh img i "sh_addralign" ∧ b.entSize.toNat = sh img i "sh_entsize" ∧
+  b.name = secName img i ∧
+  ∀ ls : LoadSt, ls.st.data = cont → secView (clsOf img) tr ls b = secFileBytes img i
+
+def SegmentSpecT (img : Bytes) (tr : List Trans) (cont : Bytes) (j : Nat) (g : Seg) : Prop :=
+  g.index = j ∧
+  g.stype.toNat = ph img j "p_type" ∧ g.flags.toNat = ph img j "p_flags" ∧
+  g.offset.toNat = ph img j "p_offset" ∧ g.vaddr.toNat = ph img j "p_vaddr" ∧
+  g.paddr.toNat = ph img j "p_paddr" ∧ g.filesz.toNat = ph img j "p_filesz" ∧
+  g.memsz.toNat = ph img j "p_memsz" ∧ g.align.toNat = ph img j "p_align" ∧
+  g.secs.map (·.toNat) = members img j ∧
+  ∀ ls : LoadSt, ls.st.data = cont → segView (clsOf img) tr ls g = segFileBytes img j
+
+def LoadSpecT (img : Bytes) (tr : List Trans) (cont : Bytes) (r : LoadRes) : Prop :=
+  r.ok = true ∧ r.obj.cls = clsOf img ∧ r.obj.enc = encOf img ∧
+  (∃ h, r.obj.hdr = some h ∧ HeaderSpec img h) ∧
+  r.obj.stream.data = cont ∧ r.obj.stream.eof = false ∧ r.obj.stream.fail = false ∧
+  r.obj.secs.length = eh img "e_shnum" ∧
+  (∀ i (hi : i < r.obj.secs.length), SectionSpecT img tr cont i r.obj.secs[i]) ∧
+  r.obj.segs.length = eh img "e_phnum" ∧
+  (∀ j (hj : j < r.obj.segs.length), SegmentSpecT img tr cont j r.obj.segs[j])
+
+/-- the plain specification is the instance `tr = []`, `cont = img` -/
+theorem loadSpecT_of_plain (img : Bytes) (r : LoadRes) (h : LoadSpec img r) : LoadSpecT img [] img r := by
+  obtain ⟨a1, a2, a3, a4, a5, a6, a7, a8, a9, a10, a11⟩ := h
+  refine ⟨a1, a2, a3, a4, a5, a6, a7, a8, ?_, a10, ?_⟩
+  · intro i hi
+    obtain ⟨x0, x1, x2, x3, x4, x5, x6, x7, x8, x9, x10, x11, x12⟩ := a9 i hi
+    exact ⟨x0, x1, x2, x3, x4, x5, x6, x7, x8, x9, x10, x11, x12⟩
+  · intro j hj
+    obtain ⟨x0, x1, x2, x3, x4, x5, x6, x7, x8, x9, x10⟩ := a11 j hj
+    exact ⟨x0, x1, x2, x3, x4, x5, x6, x7, x8, x9, x10⟩
+
+theorem SectionSpecT_of_SecStT (img : Bytes) (tr : List Trans) (cont : Bytes) (isLazy : Bool) (i : Nat)
+    (res : Bool) (b : SecBuf)
+    (h63c : cont.length < 9223372036854775808) (h63i : img.length < 9223372036854775808)
+    (hk : shBase img i + shdrSize (clsOf img) ≤ img.length)
+    (hin : SecRep cont tr img (secHdr (clsOf img) (encOf img) img (shBase img i) isLazy i))
+    (hb : SecStT (clsOf img) (encOf img) tr cont.length img (shBase img i) isLazy i res (secName img i) b) :
+    SectionSpecT img tr cont i b := by
+  obtain ⟨f1, f2, f3, f4, f5, f6, f7, f8, f9, f10⟩ :=
+    secHdr_bridge img (clsOf img) (encOf img) (shBase img i) isLazy i hk
+  have hidx : (secHdr (clsOf img) (encOf img) img (shBase img i) isLazy i).index = i := by
+    simp [secHdr, secInit]
+  obtain ⟨fd, L, hbe, hL⟩ := id hb
+  refine ⟨by rw [hbe]; exact hidx, by rw [hbe]; exact f1, by rw [hbe]; exact f2, by rw [hbe]; exact f3,
+    by rw [hbe]; exact f4, by rw [hbe]; exact f5, by rw [hbe]; exact f6, by rw [hbe]; exact f7,
+    by rw [hbe]; exact f8, by rw [hbe]; exact f9, by rw [hbe]; exact f10, by rw [hbe], ?_⟩
+  intro ls hd
+  obtain ⟨⟨fd', L', hg, _⟩, _⟩ := secGetData_SecStT _ _ tr cont img _ isLazy i res _ b ls hd h63c h63i hin hb
+  unfold secView
+  rw [hg]
+  simp only [if_true]
+  have hin' : isNullOrNobitsTy (secHdr (clsOf img) (encOf img) img (shBase img i) isLazy i).stype = false →
+      (secHdr (clsOf img) (encOf img) img (shBase img i) isLazy i).offset.toNat +
+      (secHdr (clsOf img) (encOf img) img (shBase img i) isLazy i).size.toNat ≤ img.length :=
+    fun h => (hin h).2.2.1
+  show List.take (secHdr (clsOf img) (encOf img) img (shBase img i) isLazy i).size.toNat _ = _
+  rw [secData_take img _ hin', secBytes_bridge img isLazy i hk]
+
+theorem SegmentSpecT_of_segFinalT (img : Bytes) (tr : List Trans) (cont : Bytes) (isLazy : Bool) (j : Nat)
+    (secs : List SecBuf)
+    (h63c : cont.length < 9223372036854775808) (h63i : img.length < 9223372036854775808)
+    (hk : phBase img j + phdrSize (clsOf img) ≤ img.length)
+    (hin : SegRep cont tr img (segHdr_ls (clsOf img) (encOf img) img (phBase img j) isLazy))
+    (hw1 : ph img j "p_vaddr" + ph img j "p_memsz" < 18446744073709551616)
+    (hw2 : ph img j "p_offset" + ph img j "p_filesz" < 18446744073709551616)
+    (hlen : secs.length = eh img "e_shnum") (hn : eh img "e_shnum" < 65536)
+    (hsecs : ∀ i (h : i < secs.length), SectionSpecT img tr cont i secs[i] ∧
+      sh img i "sh_addr" + sh img i "sh_size" < 18446744073709551616 ∧
+      sh img i "sh_offset" + sh img i "sh_size" < 18446744073709551616) :
+    SegmentSpecT img tr cont j (segFinalT (clsOf img) (encOf img) tr cont.length img (phBase img j) isLazy j secs) := by
+  obtain ⟨g1, g2, g3, g4, g5, g6, g7, g8⟩ := segHdr_bridge img (clsOf img) (encOf img) (phBase img j) isLazy hk
+  refine ⟨rfl, g1, g2, g3, g4, g5, g6, g7, g8, ?_, ?_⟩
+  · show ((secs.filter (memberOf (segHdr_ls (clsOf img) (encOf img) img (phBase img j) isLazy))).map
+        (fun b => BitVec.ofNat 16 b.index)).map (·.toNat) = members img j
+    rw [List.map_map]
+    unfold members
+    rw [← hlen]
+    apply filter_index_range
+    · intro i h
+      have := (hsecs i h).1.1
+      simp only [Function.comp, this, BitVec.toNat_ofNat, Nat.reducePow]
+      omega
+    · intro i h
+      obtain ⟨⟨_, _, _, s3, s4, s5, s6, _⟩, w1, w2⟩ := hsecs i h
+      rw [member_eq_spec _ secs[i] (by rw [s4, s6]; exact w1) (by rw [s5, s6]; exact w2)
+        (by rw [g4, g7]; exact hw1) (by rw [g3, g6]; exact hw2)]
+      rw [s3, s4, s5, s6, g1, g3, g4, g6, g7]
+      rfl
+  · intro ls hd
+    have h := segGetData_segFinalT (clsOf img) (encOf img) tr cont img (phBase img j) isLazy j secs ls hd h63c h63i hin
+    unfold segView
+    rw [h.1]
+    have hin' : SegInside img.length (segHdr_ls (clsOf img) (encOf img) img (phBase img j) isLazy) :=
+      fun hs => (hin hs).2.2.1
+    exact segData_take img j isLazy hk hin'
+
+/-- **C02 through a translation table** : a well-formed image, loaded from a container that
+    represents it through the table, shows exactly what the specification says is in the image -/
+theorem load_eq_spec_tr (img cont : Bytes) (tr : List Trans) (o : Obj) (k : StreamKind) (isLazy : Bool)
+    (htr : o.trans = tr) (hwf : WellFormedImage img) (hrep : Represents cont tr img) :
+    ∃ r : LoadRes, load o { data := cont, kind := k } isLazy = .ok r ∧ LoadSpecT img tr cont r := by
+  obtain ⟨hmag, hcls, hdat, hehs, h63, hshent, hphent, hS, hP, hndx, hnames⟩ := hwf
+  obtain ⟨h63c, rE, rS, rP⟩ := hrep
+  have hsz := sizes_eq (clsOf img)
+  rw [← hsz.1] at hehs rE
+  rw [← hsz.2.1] at hshent hS rS
+  rw [← hsz.2.2] at hphent hP rP
+  obtain ⟨m0, m1, m2, m3⟩ := magic_gate img hmag
+  subst htr
+  have hgate := load_gate_rep o { data := cont, kind := k } isLazy (clsOf img) (encOf img) img rfl rfl
+    m0 m1 m2 m3 (cls_gate img hcls) (enc_gate img hdat) rE
+  simp only [] at hgate
+  obtain ⟨e1, e2, e3, e4, e5, e6, e7, e8, e9, e10, e11, e12, e13⟩ := ehdr_bridge img (clsOf img) (encOf img) hehs
+  have E : ∀ f, Spec.get (Spec.ehdrL (clsOf img)) (encOf img) img 0 f = eh img f := fun _ => rfl
+  rw [E] at e1 e2 e3 e4 e5 e6 e7 e8 e9 e10 e11 e12 e13
+  have hshnum : (Hdr.e_shnum (clsOf img) (encOf img) (slice img 0 (ehdrSize (clsOf img)))).toNat = eh img "e_shnum" := e12
+  have hphnum : (Hdr.e_phnum (clsOf img) (encOf img) (slice img 0 (ehdrSize (clsOf img)))).toNat = eh img "e_phnum" := e10
+  have hshb : ∀ j, (Hdr.e_shoff (clsOf img) (encOf img) (slice img 0 (ehdrSize (clsOf img)))).toNat +
+      j * (Hdr.e_shentsize (clsOf img) (encOf img) (slice img 0 (ehdrSize (clsOf img)))).toNat = shBase img j := by
+    intro j; rw [e6, e11]; rfl
+  have hphb : ∀ j, (Hdr.e_phoff (clsOf img) (encOf img) (slice img 0 (ehdrSize (clsOf img)))).toNat +
+      j * (Hdr.e_phentsize (clsOf img) (encOf img) (slice img 0 (ehdrSize (clsOf img)))).toNat = phBase img j := by
+    intro j; rw [e5, e9]; rfl
+  have hcb := identB img (clsOf img) hehs
+  have hc1 : BitVec.ofNat 8 (identByte img Spec.EI_CLASS) = 1#8 → clsOf img = .c32 := by
+    intro h
+    rcases hcls with h' | h'
+    · simp [clsOf, h']; decide
+    · rw [h'] at h; exact absurd h (by decide)
+  have hc2 : BitVec.ofNat 8 (identByte img Spec.EI_CLASS) = 2#8 → clsOf img = .c64 := by
+    intro h
+    rcases hcls with h' | h'
+    · rw [h'] at h; exact absurd h (by decide)
+    · simp [clsOf, h']
+  have hbadS : load_sections_entsize_bad (Hdr.e_shnum (clsOf img) (encOf img) (slice img 0 (ehdrSize (clsOf img))))
+      (Hdr.ident (slice img 0 (ehdrSize (clsOf img))) Gen.EI_CLASS)
+      (Hdr.e_shentsize (clsOf img) (encOf img) (slice img 0 (ehdrSize (clsOf img)))) = false := by
+    unfold load_sections_entsize_bad
+    apply entsize_ok _ _ _ sizeof_Elf32_Shdr sizeof_Elf64_Shdr (by decide) (by decide)
+    intro hn
+    rw [hshnum] at hn
+    have := hshent hn
+    rw [← e11] at this
+    rw [hcb]
+    constructor
+    · intro h; have hcl := hc1 h; rw [hcl] at this ⊢; exact this
+    · intro h; have hcl := hc2 h; rw [hcl] at this ⊢; exact this
+  have hbadP : load_segments_entsize_bad (Hdr.e_phnum (clsOf img) (encOf img) (slice img 0 (ehdrSize (clsOf img))))
+      (Hdr.ident (slice img 0 (ehdrSize (clsOf img))) Gen.EI_CLASS)
+      (Hdr.e_phentsize (clsOf img) (encOf img) (slice img 0 (ehdrSize (clsOf img)))) = false := by
+    unfold load_segments_entsize_bad
+    apply entsize_ok _ _ _ sizeof_Elf32_Phdr sizeof_Elf64_Phdr (by decide) (by decide)
+    intro hn
+    rw [hphnum] at hn
+    have := hphent hn
+    rw [← e9] at this
+    rw [hcb]
+    constructor
+    · intro h; have hcl := hc1 h; rw [hcl] at this ⊢; exact this
+    · intro h; have hcl := hc2 h; rw [hcl] at this ⊢; exact this
+  have hinS : ∀ j, j < eh img "e_shnum" →
+      SecRep cont o.trans img (secHdr (clsOf img) (encOf img) img (shBase img j) isLazy j) := by
+    intro j hj hty
+    obtain ⟨hk, _, _, _⟩ := hS j hj
+    obtain ⟨_, b2, _, _, b5, b6, _⟩ := secHdr_bridge img (clsOf img) (encOf img) (shBase img j) isLazy j hk
+    rw [isNullOrNobits_eq, b2] at hty
+    rw [b5, b6]
+    have : occupiesFile (sh img j "sh_type") = true := by unfold sh; simpa using hty
+    exact (rS j hj).2 this
+  have hinP : ∀ j, j < eh img "e_phnum" →
+      SegRep cont o.trans img (segHdr_ls (clsOf img) (encOf img) img (phBase img j) isLazy) := by
+    intro j hj hsk
+    obtain ⟨hk, _, _, _⟩ := hP j hj
+    obtain ⟨b1, _, b3, _, _, b6, _, _⟩ := segHdr_bridge img (clsOf img) (encOf img) (phBase img j) isLazy hk
+    rw [segSkip_eq, b1, b6] at hsk
+    rw [b3, b6]
+    apply (rP j hj).2
+    unfold segHasData ph
+    simp only [bne, ← Bool.not_or, hsk, Bool.not_false]
+  have hbody := loadBody_rep
+    { o with secs := [], segs := [], cls := clsOf img, enc := encOf img,
+             hdr := some (slice img 0 (ehdrSize (clsOf img))) }
+    (clsOf img) (encOf img) isLazy (slice img 0 (ehdrSize (clsOf img))) cont img
+    { data := cont, pos := (trApply o.trans 0).toNat + ehdrSize (clsOf img), gcount := ehdrSize (clsOf img), kind := k }
+    rfl rfl rfl h63c h63 hbadS hbadP
+    (fun j hj => by rw [hshnum] at hj; rw [hshb]; exact ⟨(rS j hj).1, hinS j hj⟩)
+    (fun j hj => by rw [hphnum] at hj; rw [hphb]; exact ⟨(rP j hj).1, hinP j hj⟩)
+    (by rw [e13, hshnum]; exact hndx)
+  obtain ⟨r, hr, r1, r2, r3, r4, r5, r6, r7, r8, r9, r10, r11, r12, r13⟩ := hbody
+  have hsecAll : ∀ i (hi : i < r.obj.secs.length), SectionSpecT img o.trans cont i r.obj.secs[i] := by
+    intro i hi
+    have hi' : i < eh img "e_shnum" := by rw [r10, hshnum] at hi; exact hi
+    obtain ⟨res, hst, _⟩ := r11 i hi
+    rw [hshb] at hst
+    apply SectionSpecT_of_SecStT img o.trans cont isLazy i res _ h63c h63 (hS i hi').1 (hinS i hi')
+    have hname : nameOf (strtabOf (clsOf img) (encOf img) img
+          (Hdr.e_shoff (clsOf img) (encOf img) (slice img 0 (ehdrSize (clsOf img)))).toNat
+          (Hdr.e_shentsize (clsOf img) (encOf img) (slice img 0 (ehdrSize (clsOf img)))).toNat isLazy
+          (Hdr.e_shstrndx (clsOf img) (encOf img) (slice img 0 (ehdrSize (clsOf img)))).toNat)
+        (secHdr (clsOf img) (encOf img) img (shBase img i) isLazy i).nameOff.toNat = secName img i := by
+      have b1 := (secHdr_bridge img (clsOf img) (encOf img) (shBase img i) isLazy i (hS i hi').1).1
+      unfold nameOf strtabOf secName shstrtab
+      rw [e13, b1]
+      by_cases hz : eh img "e_shstrndx" = 0
+      · rw [hz]; rfl
+      · have hz' : ¬ eh img "e_shstrndx" = Spec.SHN_UNDEF := hz
+        have hlt : eh img "e_shstrndx" < eh img "e_shnum" := by
+          rcases hndx with h | h
+          · exact absurd h hz'
+          · exact h
+        simp only [hz, hz', if_false]
+        rw [hshb, secBytes_bridge img isLazy _ (hS _ hlt).1]
+        rfl
+    rw [hname] at hst
+    exact hst
+  refine ⟨r, by rw [hgate]; exact hr, r1, r2, r3, ⟨_, r4, ?_⟩, r6, r7, r8, by rw [r10, hshnum], hsecAll,
+    by rw [r12, hphnum], ?_⟩
+  · exact ⟨by rw [hsz.1], e1, e2, e3, e4, e5, e6, e7, e8, e9, e10, e11, e12, e13⟩
+  · intro j hj
+    have hj' : j < eh img "e_phnum" := by rw [r12, hphnum] at hj; exact hj
+    rw [r13 j hj, hphb]
+    have hn16 : eh img "e_shnum" < 65536 := by
+      rw [← hshnum]; exact (Hdr.e_shnum _ _ _).isLt
+    apply SegmentSpecT_of_segFinalT img o.trans cont isLazy j r.obj.secs h63c h63 (hP j hj').1 (hinP j hj')
+      (hP j hj').2.2.1 (hP j hj').2.2.2 (by rw [r10, hshnum]) hn16
+    intro i hi
+    have hi' : i < eh img "e_shnum" := by rw [r10, hshnum] at hi; exact hi
+    exact ⟨hsecAll i hi, (hS i hi').2.2.1, (hS i hi').2.2.2⟩
+
+/-- a plainly loaded object `a` (image `img`) and an object `b` loaded through table `tr` from
+    container `cont` show the same things -/
+def ViewEqT (img cont : Bytes) (tr : List Trans) (a b : Obj) : Prop :=
+  a.cls = b.cls ∧ a.enc = b.enc ∧ a.hdr = b.hdr ∧
+  a.secs.length = b.secs.length ∧ a.segs.length = b.segs.length ∧
+  (∀ i (h1 : i < a.secs.length) (h2 : i < b.secs.length),
+    secFields a.secs[i] = secFields b.secs[i] ∧
+    ∀ ls1 ls2 : LoadSt, ls1.st.data = img → ls2.st.data = cont →
+      secView a.cls [] ls1 a.secs[i] = secView b.cls tr ls2 b.secs[i]) ∧
+  (∀ j (h1 : j < a.segs.length) (h2 : j < b.segs.length),
+    segFields a.segs[j] = segFields b.segs[j] ∧
+    ∀ ls1 ls2 : LoadSt, ls1.st.data = img → ls2.st.data = cont →
+      segView a.cls [] ls1 a.segs[j] = segView b.cls tr ls2 b.segs[j])
+
+theorem viewEqT_of_spec (img cont : Bytes) (tr : List Trans) (ra rb : LoadRes)
+    (ha : LoadSpecT img [] img ra) (hb : LoadSpecT img tr cont rb) :
+    ra.ok = rb.ok ∧ ViewEqT img cont tr ra.obj rb.obj := by
+  obtain ⟨a1, a2, a3, ⟨ah, a4, a5⟩, _, _, _, a6, a7, a8, a9⟩ := ha
+  obtain ⟨b1, b2, b3, ⟨bh, b4, b5⟩, _, _, _, b6, b7, b8, b9⟩ := hb
+  refine ⟨by rw [a1, b1], by rw [a2, b2], by rw [a3, b3], by rw [a4, b4, a5.1, b5.1], by rw [a6, b6],
+    by rw [a8, b8], ?_, ?_⟩
+  · intro i h1 h2
+    obtain ⟨x0, x1, x2, x3, x4, x5, x6, x7, x8, x9, x10, x11, x12⟩ := a7 i h1
+    obtain ⟨y0, y1, y2, y3, y4, y5, y6, y7, y8, y9, y10, y11, y12⟩ := b7 i h2
+    refine ⟨?_, ?_⟩
+    · simp only [secFields, Prod.mk.injEq]
+      exact ⟨by rw [x0, y0], by rw [x11, y11], bv_eq x1 y1, bv_eq x2 y2, bv_eq x3 y3, bv_eq x4 y4, bv_eq x5 y5,
+        bv_eq x6 y6, bv_eq x7 y7, bv_eq x8 y8, bv_eq x9 y9, bv_eq x10 y10⟩
+    · intro ls1 ls2 h1 h2
+      rw [a2, b2, x12 ls1 h1, y12 ls2 h2]
+  · intro j h1 h2
+    obtain ⟨x0, x1, x2, x3, x4, x5, x6, x7, x8, x9, x10⟩ := a9 j h1
+    obtain ⟨y0, y1, y2, y3, y4, y5, y6, y7, y8, y9, y10⟩ := b9 j h2
+    refine ⟨?_, ?_⟩
+    · simp only [segFields, Prod.mk.injEq]
+      refine ⟨by rw [x0, y0], bv_eq x1 y1, bv_eq x2 y2, bv_eq x3 y3, bv_eq x4 y4, bv_eq x5 y5, bv_eq x6 y6,
+        bv_eq x7 y7, bv_eq x8 y8, ?_⟩
+      exact map_toNat_inj _ _ (x9.trans y9.symm)
+    · intro ls1 ls2 h1 h2
+      rw [a2, b2, x10 ls1 h1, y10 ls2 h2]
+
+/-- **C15, translation part** : an object loaded from a container stream in which the image's
+    pieces sit at displaced positions, with a table mapping original offsets to those positions,
+    shows the same as one loaded from the plain image — every header getter, every section and
+    segment field, names, members, and the data delivered by requests on streams in any state;
+    eager or lazy, string- or file-backed, independently on both sides. -/
+theorem translated_eq_plain (img cont : Bytes) (tr : List Trans) (o ot : Obj) (k k' : StreamKind)
+    (isLazy isLazy' : Bool) (h1 : o.trans = []) (h2 : ot.trans = tr)
+    (hwf : WellFormedImage img) (hrep : Represents cont tr img) :
+    ∃ rp rt : LoadRes, load o { data := img, kind := k } isLazy = .ok rp ∧
+      load ot { data := cont, kind := k' } isLazy' = .ok rt ∧
+      rp.ok = rt.ok ∧ ViewEqT img cont tr rp.obj rt.obj := by
+  obtain ⟨rp, hp, sp⟩ := load_eq_spec img o k isLazy h1 hwf
+  obtain ⟨rt, ht, st⟩ := load_eq_spec_tr img cont tr ot k' isLazy' h2 hwf hrep
+  exact ⟨rp, rt, hp, ht, viewEqT_of_spec img cont tr rp rt (loadSpecT_of_plain img rp sp) st⟩
+
+/-! non-vacuity: the well-formed image of C02, displaced by 7 bytes inside a container -/
+
+instance (cont : Bytes) (tr : List Trans) (img : Bytes) (off n : Nat) : Decidable (RangeRep cont tr img off n) := by
+  unfold RangeRep; infer_instance
+instance (cont : Bytes) (tr : List Trans) (img : Bytes) : Decidable (Represents cont tr img) := by
+  unfold Represents; infer_instance
+
+def contImage : Bytes :=
+  [170, 170, 170, 170, 170, 170, 170, 127, 69, 76, 70, 1, 1, 1, 0, 0, 0, 0, 0, 0, 0, 0, 0, 2, 0, 3, 0, 1, 0, 0, 0, 0, 16, 0, 0, 52, 0, 0, 0, 108, 0, 0, 0, 0, 0, 0, 0, 52, 0, 32, 0, 1, 0, 40, 0, 3, 0, 2, 0, 1, 0, 0, 0, 84, 0, 0, 0, 0, 16, 0, 0, 0, 16, 0, 0, 4, 0, 0, 0, 4, 0, 0, 0, 5, 0, 0, 0, 4, 0, 0, 0, 1, 2, 3, 4, 0, 46, 116, 101, 120, 116, 0, 46, 115, 104, 115, 116, 114, 116, 97, 98, 0, 0, 0, 0, 0, 0, 0, 0, 0, 0, 0, 0, 0, 0, 0, 0, 0, 0, 0, 0, 0, 0, 0, 0, 0, 0, 0, 0, 0, 0, 0, 0, 0, 0, 0, 0, 0, 0, 0, 0, 0, 0, 0, 0, 1, 0, 0, 0, 1, 0, 0, 0, 6, 0, 0, 0, 0, 16, 0, 0, 84, 0, 0, 0, 4, 0, 0, 0, 0, 0, 0, 0, 0, 0, 0, 0, 4, 0, 0, 0, 0, 0, 0, 0, 7, 0, 0, 0, 3, 0, 0, 0, 0, 0, 0, 0, 0, 0, 0, 0, 88, 0, 0, 0, 17, 0, 0, 0, 0, 0, 0, 0, 0, 0, 0, 0, 1, 0, 0, 0, 0, 0, 0, 0, 85, 85, 85]
+def contTable : List Trans := [{ start := 0, size := 228, mappedTo := 7 }]
+
+example : Represents contImage contTable wfImage := by decide +kernel
+
+example : ∃ rp rt : LoadRes, load {} { data := wfImage } false = .ok rp ∧
+    load { trans := contTable } { data := contImage } true = .ok rt ∧
+    rp.ok = rt.ok ∧ ViewEqT wfImage contImage contTable rp.obj rt.obj :=
+  translated_eq_plain wfImage contImage contTable {} { trans := contTable } .str .str false true rfl rfl
+    (by decide +kernel) (by decide +kernel)
+
+
+/-! ### a limit of lazy = eager: translation table + truncated container (candidate finding)
+
+With a non-empty table `stream_size = SIZE_MAX`, so no bound protects the eager data read; when the
+container is too short the read comes up short, `setstate(earlier)` keeps the new failbit, and every
+*later* section header is unreadable in the eager load — the lazy load reads them all.  Both loads
+return true.  (`lazy_eq_eager` therefore needs `o.trans = []`; `translated_eq_plain` needs
+`Represents`.)  The same transcript was obtained from the real code with harness/load.cpp. -/
+
+/-- C02's example image with `e_phnum = 0`, cut into `[108,228)` and `[0,108)`, the second piece
+    truncated to 86 bytes (the `.text` data at 84..88 is incomplete) -/
+def truncContainer : Bytes :=
+  [0, 0, 0, 0, 0, 0, 0, 0, 0, 0, 0, 0, 0, 0, 0, 0, 0, 0, 0, 0, 0, 0, 0, 0, 0, 0, 0, 0, 0, 0, 0, 0, 0, 0, 0, 0, 0, 0, 0, 0, 1, 0, 0, 0, 1, 0, 0, 0, 6, 0, 0, 0, 0, 16, 0, 0, 84, 0, 0, 0, 4, 0, 0, 0, 0, 0, 0, 0, 0, 0, 0, 0, 4, 0, 0, 0, 0, 0, 0, 0, 7, 0, 0, 0, 3, 0, 0, 0, 0, 0, 0, 0, 0, 0, 0, 0, 88, 0, 0, 0, 17, 0, 0, 0, 0, 0, 0, 0, 0, 0, 0, 0, 1, 0, 0, 0, 0, 0, 0, 0, 127, 69, 76, 70, 1, 1, 1, 0, 0, 0, 0, 0, 0, 0, 0, 0, 2, 0, 3, 0, 1, 0, 0, 0, 0, 16, 0, 0, 52, 0, 0, 0, 108, 0, 0, 0, 0, 0, 0, 0, 52, 0, 32, 0, 0, 0, 40, 0, 3, 0, 2, 0, 1, 0, 0, 0, 84, 0, 0, 0, 0, 16, 0, 0, 0, 16, 0, 0, 4, 0, 0, 0, 4, 0, 0, 0, 5, 0, 0, 0, 4, 0, 0, 0, 1, 2]
+def truncTable : List Trans := [{ start := 0, size := 108, mappedTo := 120 }, { start := 108, size := 120, mappedTo := 0 }]
+
+def secTypes (r : M LoadRes) : Option (Bool × List Nat) :=
+  match r with
+  | .ok r => some (r.ok, r.obj.secs.map (·.stype.toNat))
+  | .error _ => none
+
+theorem lazy_eager_translated_truncated_witness :
+    secTypes (load { trans := truncTable } { data := truncContainer } false) = some (true, [0, 1, 0]) ∧
+    secTypes (load { trans := truncTable } { data := truncContainer } true) = some (true, [0, 1, 3]) := by
+  decide +kernel
+
 end ElfioVerif.C15
